@@ -9,19 +9,27 @@ graph book-keeping, and is decided here for all inputs at once:
     merged with another copy of `a`;
   * the cut-vertex -> original-vertex map is the inverse of the duplicate table filled corner by corner;
   * the cut graph is the complement of the dual spanning tree, symmetric, and pruning removes only non-singular leaves.
+
+Every rule works on the flattened form of a method (msa/rules/hf_flat.py: private helpers, nested functions and generator helpers
+inlined, aliases of attributes / bound methods resolved), finds its constructs by role and answers ok / fail (a recognised construct
+contradicts the obligation) / undecided (shape not understood).
 """
 from __future__ import annotations
 import ast
-from .. import au, sym
+from .. import au, sym, order
 from ..rules import common
+from ..rules import skel0910 as sk
+from ..rules import hf_flat, hf_roles as hr
+from ..rules.hf_roles import FlatFn
 
 CUT = "processing.cutting"
 CLS = "SingularityCutter"
 
 EXPLANATION = (
-    "Static conformance of SingularityCutter: the structural clauses of the property (faces in bijection and in order, corner "
-    "positions copied, merges only across non-cut interior edges and only between copies of the same vertex, reference map "
-    "inverse of the duplicate table, cut-graph book-keeping and pruning of non-singular leaves). The topological clauses "
+    "Static conformance of SingularityCutter, decided on the flattened form of each method: the structural clauses of the property "
+    "(faces in bijection and in order, corner positions copied, merges only across non-cut interior edges and only between copies of "
+    "the same vertex, reference map inverse of the duplicate table, cut-graph book-keeping and pruning of non-singular leaves, Kruskal "
+    "over the singular vertices, dual Dijkstra skeleton, ownership of the exclusion sets and of the cut data). The topological clauses "
     "(disk, one border loop, Euler characteristic 1, connectivity of the cut graph) are NOT decided.")
 
 RULES = {
@@ -29,13 +37,19 @@ RULES = {
     "C16-V1": "output face i is [k, k+1, .., k+n-1]; vertex k+j is appended with the position of the j-th vertex of input face i; the offset k starts at 0 and advances by n after the row",
     "C16-U1": "vertex copies are merged only for interior edges not in cut_edges, pairing the copy of a (resp. b) in one face with the copy of a (resp. b) in the other",
     "C16-M1": "compaction renumbers merged copies in order of first appearance; ref_vertex is the inverse of the duplicate table mapped through the same renumbering",
-    "C16-K1": "Kruskal over the singular vertices and the border sentinel: every pair / border candidate is recorded and weighed unconditionally, sorted ascending, selected exactly when its ends are not yet connected (record + union in one block), and every consecutive pair of every selected path is flagged",
+    "C16-K1": "Kruskal over the singular vertices and the border sentinel: every pair / border candidate is recorded and weighed unconditionally, sorted ascending, selected exactly when its ends are not yet connected (record + union under one test), and every consecutive pair of every selected path is flagged",
     "C16-K2": "with features: every singular vertex is linked to the feature graph by a fully flagged path; the feature graph is spanned breadth-first from every landing point, each tree edge flagged",
-    "C16-D1": "the two dual Dijkstra loops satisfy the skeleton obligations of C09-D1..D4 (pop-min, visited discipline, strict relaxation with label+predecessor in one block, push of the updated label)",
+    "C16-D1": "the two dual Dijkstra loops satisfy the skeleton obligations of C09-D1..D4 (pop-min, visited discipline, strict relaxation with label+predecessor under one test, push of the updated label)",
     "C16-D2": "the dual tree never crosses an edge of the singularity spanning tree, records the crossed edge as predecessor, reaches the face opposite across that edge, and returns every recorded edge",
-    "C16-A1": "the exclusion set a spanning tree borrows from its caller is never mutated by the tree; cut_edges / cut_adj / ref_vertex are written only by the cutter's construction steps",
+    "C16-A1": "the exclusion set a spanning tree borrows from its caller is never mutated by the tree; cut_edges / cut_adj / ref_vertex are written only by the cutter itself",
+    "C16-R1": "the face spanning tree / forest that delimits the feature regions obeys the breadth-first skeleton of C10 (never crosses a forbidden edge, "
+              "marks and parents each face once, children / edges built from the parent table)",
     "C16-C1": "cut edges = all edges minus the dual-tree edges; the cut adjacency is symmetric; pruning removes only leaves that are not singular, symmetrically, together with their edge",
 }
+
+OUTF = "self._output_mesh.faces"
+OUTV = "self._output_mesh.vertices"
+INF = "self.input_mesh.faces"
 
 
 def run(ctx):
@@ -46,321 +60,1098 @@ def run(ctx):
     k1_spanning_tree_no_features(ctx)
     k2_spanning_tree_with_features(ctx)
     d1_dual_trees(ctx)
+    r1_region_tree(ctx)
     a1_ownership(ctx)
+
+
+def _absent(ctx, F, region, rule, site, construct, what):
+    """report that something is missing: a violation only when the region is fully visible to the rules, undecided otherwise"""
+    if F.opaque(region):
+        ctx.undecided(rule, site, construct, "part of the code concerned is not visible to the rule (a helper that was not inlined, a staged list ..)")
+    else:
+        ctx.fail(rule, site, construct, what)
 
 
 def _fn(ctx, name):
     return ctx.repo.func(CUT, f"{CLS}.{name}")
 
 
+def _flat(ctx, name):
+    fn0 = _fn(ctx, name)
+    cache = getattr(ctx.repo, "_hf_flatfn", None)
+    if cache is None:
+        cache = ctx.repo._hf_flatfn = {}
+    k = (CUT, id(fn0))
+    if k not in cache:
+        cache[k] = FlatFn(ctx.repo, CUT, fn0)
+    return fn0, cache[k]
+
+
+# --------------------------------------------------------------------------------------------- traversals
+def _traversal(F, lp, container):
+    """`lp` visits every element of `container` (a table key such as self.input_mesh.faces) in order:
+    for x in C -> (None, x) ; for i, x in enumerate(C) -> (i, x) ; for i in range(len(C)) / C-ids -> (i, None).  None otherwise."""
+    it, tg = lp.iter, lp.target
+    if F.table_key(it, lp) == container and isinstance(tg, ast.Name):
+        return (None, tg.id)
+    if isinstance(it, ast.Call) and au.call_tail(it) == "enumerate" and len(it.args) == 1 and F.table_key(it.args[0], lp) == container \
+            and isinstance(tg, ast.Tuple) and len(tg.elts) == 2 and all(isinstance(x, ast.Name) for x in tg.elts):
+        return (tg.elts[0].id, tg.elts[1].id)
+    if isinstance(it, ast.Call) and au.call_tail(it) == "range" and len(it.args) == 1 and isinstance(tg, ast.Name):
+        n = F.b.resolve(it.args[0], at=lp, keep=("self",))
+        if isinstance(n, ast.Call) and au.call_tail(n) == "len" and len(n.args) == 1 and F.table_key(n.args[0], lp) == container:
+            return (tg.id, None)
+    if isinstance(tg, ast.Name) and isinstance(it, ast.Attribute) and it.attr.startswith("id_") and container.endswith("." + it.attr[3:]) \
+            and F.table_key(it.value, lp) == container.rsplit(".", 1)[0]:
+        return (tg.id, None)
+    return None
+
+
+def _is_row(F, e, at, container, idx, row):
+    """expression e denotes the row of the traversal: the row variable, or container[idx]"""
+    if isinstance(e, ast.Name) and row is not None and F.root(e.id, at) == row:
+        return True
+    if isinstance(e, ast.Subscript) and idx is not None and isinstance(e.slice, ast.Name) and F.root(e.slice.id, at) == idx \
+            and F.table_key(e.value, at) == container:
+        return True
+    if isinstance(e, ast.Name):
+        d = F.b.reaching(e.id, at)
+        if d is not None and not isinstance(d, ast.Name):
+            return _is_row(F, d, at, container, idx, row)
+    return False
+
+
+def _offset_discipline(F, lp, k, row_len_of):
+    """the offset variable k starts at 0 before `lp`, is advanced exactly once per iteration by the size of the row, after its uses:
+    True / False (recognised violation, text) / None"""
+    incs = [s for s in au.stmts(lp.body) if (i := au.increment(s)) is not None and i[0] == k]
+    others = [s for s in au.stmts(lp.body) if k in [n for t in au.assign_targets(s) for n in au.assigned_names(t)] and au.increment(s) is None]
+    if others or not str(k).isidentifier() or k not in F.b.count:
+        return None
+    if len(incs) != 1:
+        return (False, "the running offset is not advanced exactly once per face") if not incs else None
+    inc = incs[0]
+    if not any(inc is s for s in lp.body):
+        return None
+    _, sign, amount = au.increment(inc)
+    amt = F.b.resolve(amount, at=inc, keep=("self",))
+    if not (sign == 1 and row_len_of(amt)):
+        c = order.fold_const(amt)
+        if c is not None:
+            return (False, f"the running offset advances by the constant {c:g}, not by the number of corners of the face")
+        return None
+    uses = [n for n in au.walk(lp) if isinstance(n, ast.Name) and n.id == k and isinstance(n.ctx, ast.Load) and au.enclosing_stmt(n) is not inc]
+    if any(F.before(inc, u) for u in uses):
+        return (False, "the running offset is advanced before the copies of the face are numbered")
+    init = F.b.reaching(k, lp)
+    if init is None:
+        return None
+    if au.const(init) != 0:
+        return (False, "the running offset does not start at 0")
+    return True
+
+
+def _out_mesh(F):
+    """table key of the mesh object that is being built: the name / attribute bound to RawMeshData()"""
+    keys = []
+    for st in au.stmts(F.fn.body):
+        if isinstance(st, (ast.Assign, ast.AnnAssign)) and isinstance(st.value, ast.Call) and au.call_tail(st.value) == "RawMeshData" and not st.value.args:
+            for t in au.assign_targets(st):
+                if isinstance(t, ast.Name):
+                    keys.append(t.id)
+                elif isinstance(t, ast.Attribute):
+                    keys.append(au.src(t))
+    return keys[0] if len(keys) == 1 else None
+
+
+def _mesh_key(F, e, at, OUT):
+    """table key of expression e with every alias of the output mesh written as OUT"""
+    k = F.table_key(e, at)
+    if isinstance(e, ast.Attribute):
+        base = F.table_key(e.value, at)
+        if base == OUT or (isinstance(e.value, ast.Name) and F.root(e.value.id, at) == OUT):
+            return OUT + "." + e.attr
+    return k
+
+
+class _Corners:
+    """numbering of the corners in a traversal `for F in faces: for [j,] v in [enumerate](F)` of the input faces:
+    corner j of face i has number N(i, j) = (number of corners of the faces before i) + j.  An expression denotes N(i, j) when it is
+      (A) k + j   with k an offset that starts at 0 and advances by len(F) once per face after its uses, j the enumerate / range index;
+      (B) c       a counter that starts at 0 and advances by 1 once per corner after its uses."""
+
+    def __init__(self, F, face_loop, idx, row):
+        self.F, self.lp, self.idx, self.row = F, face_loop, idx, row
+
+    def is_len_row(self, e):
+        return isinstance(e, ast.Call) and au.call_tail(e) == "len" and len(e.args) == 1 and _is_row(self.F, e.args[0], self.lp, INF, self.idx, self.row)
+
+    def corner_loops(self):
+        """[(loop, index name or None, vertex name)] : loops over the corners of the current face (inside the face loop)"""
+        out = []
+        for s in au.stmts(self.lp.body):
+            if not isinstance(s, ast.For):
+                continue
+            it = s.iter
+            if _is_row(self.F, it, s, INF, self.idx, self.row) and isinstance(s.target, ast.Name):
+                out.append((s, None, s.target.id))
+            elif isinstance(it, ast.Call) and au.call_tail(it) == "enumerate" and len(it.args) == 1 and _is_row(self.F, it.args[0], s, INF, self.idx, self.row) \
+                    and isinstance(s.target, ast.Tuple) and len(s.target.elts) == 2 and all(isinstance(x, ast.Name) for x in s.target.elts):
+                out.append((s, s.target.elts[0].id, s.target.elts[1].id))
+            elif isinstance(it, ast.Call) and au.call_tail(it) == "range" and len(it.args) == 1 and isinstance(s.target, ast.Name) \
+                    and self.is_len_row(self.F.b.resolve(it.args[0], at=s, keep=("self", self.row or "_"))):
+                out.append((s, s.target.id, None))
+        return out
+
+    def counter(self, c, cl):
+        """c is a per-corner counter of the corner loop cl: True | (False, text) | None"""
+        F = self.F
+        incs = [s for s in au.stmts(self.lp.body) if (i := au.increment(s)) is not None and i[0] == c]
+        others = [s for s in au.stmts(self.lp.body) if c in [n for t in au.assign_targets(s) for n in au.assigned_names(t)] and au.increment(s) is None]
+        if others or len(incs) != 1:
+            return None
+        inc = incs[0]
+        if not any(inc is s for s in cl.body):
+            return None
+        _, sign, amount = au.increment(inc)
+        if sign != 1 or au.const(amount) != 1:
+            return None
+        uses = [n for n in au.walk(cl) if isinstance(n, ast.Name) and n.id == c and isinstance(n.ctx, ast.Load) and au.enclosing_stmt(n) is not inc]
+        if any(F.before(inc, u) for u in uses):
+            return (False, "the corner counter is advanced before the corner is numbered")
+        init = F.b.reaching(c, self.lp)
+        if init is None:
+            return None
+        if au.const(init) != 0:
+            return (False, "the corner counter does not start at 0")
+        return True
+
+    def number(self, e, at):
+        """does expression e (evaluated at `at`, inside a corner loop) denote N(i, j)?  True | (False, text) | None"""
+        F = self.F
+        cls_ = [c for c in self.corner_loops() if F.inside(at, c[0])]
+        if len(cls_) != 1:
+            return None
+        cl, j, v = cls_[0]
+        er = F.resolve(e, at, keep=tuple(x for x in (j, v, self.row) if x))
+        p = sym.to_poly(er)
+        names = [a for a in p.atoms()]
+        if j is not None and j in names:
+            rest = [a for a in names if a != j]
+            if len(rest) == 1 and rest[0].isidentifier() and p == sym.Poly.atom(rest[0]) + sym.Poly.atom(j):
+                return _offset_discipline(F, self.lp, rest[0], self.is_len_row)
+            return None
+        if len(names) == 1 and names[0].isidentifier() and p == sym.Poly.atom(names[0]):
+            c = names[0]
+            r = self.counter(c, cl)
+            if r is None and j is not None:
+                od = _offset_discipline(F, self.lp, c, self.is_len_row)
+                if od is True:
+                    return (False, "the corner index is missing: every corner of the face gets the number of its first corner")
+            return r
+        return None
+
+
 def f1_v1_faces_and_corners(ctx):
-    fn = _fn(ctx, "_build_mesh_with_cuts")
-    site = ctx.site(CUT, fn)
-    OUT = "self._output_mesh"
-    apps = [c for c in au.calls(fn) if au.call_tail(c) == "append" and au.src(c.func.value) == f"{OUT}.faces"]
-    ok = len(apps) == 1
-    lp = None
-    if ok:
-        loops = [a for a in au.ancestors(apps[0]) if isinstance(a, ast.For)]
-        ok = len(loops) == 1 and isinstance(loops[0].iter, ast.Call) and au.call_tail(loops[0].iter) == "enumerate" \
-            and au.src(loops[0].iter.args[0]) == "self.input_mesh.faces" and not au.guards(apps[0], stop=loops[0]) \
-            and any(au.enclosing_stmt(apps[0]) is s for s in loops[0].body)
-        lp = loops[0] if loops else None
-    ctx.check(ok, "C16-F1", site, "output faces are not appended exactly once per input face, unconditionally, in input order",
-              "the cut mesh must have exactly the input faces in the same order", note="one append per input face")
-    # no other structural edit of the face container
-    bad = [c for c in au.calls(fn) if isinstance(c.func, ast.Attribute) and au.src(c.func.value) == f"{OUT}.faces"
-           and c.func.attr in ("pop", "remove", "insert", "clear", "extend", "sort", "reverse")]
-    bad += [st for st in au.stmts(fn.body) if isinstance(st, (ast.AugAssign, ast.Delete)) and f"{OUT}.faces" in au.src(st)]
-    ctx.check(not bad, "C16-F1", site, "the output face container is structurally edited after the faces were created",
-              "faces would no longer be in bijection with the input faces")
-    # rewrites: faces[i] = [g(v) for v in ROW] with ROW the row at index i
-    n_rw = 0
-    for st in au.stmts(fn.body):
-        if isinstance(st, ast.Assign) and isinstance(st.targets[0], ast.Subscript) and au.src(st.targets[0].value) == f"{OUT}.faces":
-            n_rw += 1
-            idx = au.src(st.targets[0].slice)
-            loops = [a for a in au.ancestors(st) if isinstance(a, ast.For)]
-            good = False
-            if loops and isinstance(loops[0].iter, ast.Call) and au.call_tail(loops[0].iter) == "enumerate" \
-                    and au.src(loops[0].iter.args[0]) == f"{OUT}.faces" and isinstance(loops[0].target, ast.Tuple):
-                i, row = (x.id for x in loops[0].target.elts)
-                v = st.value
-                good = idx == i and isinstance(v, ast.ListComp) and len(v.generators) == 1 and not v.generators[0].ifs \
-                    and au.src(v.generators[0].iter) == row and isinstance(v.generators[0].target, ast.Name) \
-                    and v.generators[0].target.id in au.names(v.elt) and not au.guards(st, stop=loops[0])
-            ctx.check(good, "C16-F1", ctx.site(CUT, fn, st),
-                      f"`{au.src(st)[:80]}` does not rewrite row i element by element from its own old entries",
-                      "corner k of output face i must stay the image of corner k of input face i", note="row rewritten element-wise in place")
-    ctx.check(n_rw >= 2, "C16-F1", site, "the merge / renumbering passes over the output faces were not found", "")
-    if lp is None or not isinstance(lp.target, ast.Tuple):
+    fn0, F = _flat(ctx, "_build_mesh_with_cuts")
+    fn = F.fn
+    site = ctx.site(CUT, fn0)
+    b = F.b
+
+    def S(n):
+        return ctx.site(CUT, fn0, n)
+    OUT = _out_mesh(F)
+    if OUT is None:
+        ctx.undecided("C16-F1", site, "the mesh object that is being built is not recognised", "no single `<x> = RawMeshData()`")
         return
-    iF, F = (x.id for x in lp.target.elts)
-    b = sym.Bindings(fn)
-    # V1: row = [k + j for j in range(n)], n = len(F)
+    OF, OV = OUT + ".faces", OUT + ".vertices"
+
+    def tk(e, at):
+        return _mesh_key(F, e, at, OUT)
+    apps = [c for c in au.calls(fn) if au.call_tail(c) == "append" and isinstance(c.func, ast.Attribute) and tk(c.func.value, c) == OF and len(c.args) == 1]
+    lp = None
+    trav = None
+    if len(apps) == 1:
+        loops = [a for a in au.ancestors(apps[0]) if isinstance(a, (ast.For, ast.While))]
+        trav = _traversal(F, loops[0], INF) if len(loops) == 1 and isinstance(loops[0], ast.For) else None
+        if trav is None:
+            ctx.undecided("C16-F1", site, "the loop that creates the output faces is not a traversal of the input faces", "")
+        else:
+            lp = loops[0]
+            conds = F.conds(apps[0], stop=lp)
+            if conds:
+                ctx.fail("C16-F1", S(apps[0]), "output faces are not appended exactly once per input face, unconditionally, in input order",
+                         "the cut mesh must have exactly the input faces in the same order: a face is created only under a condition")
+            elif au.raw_guards(lp):
+                ctx.undecided("C16-F1", S(lp), "the loop that creates the output faces is conditional", "")
+            else:
+                ctx.ok("C16-F1", site, "one append per input face")
+    elif not apps:
+        ctx.undecided("C16-F1", site, "the creation of the output faces is not recognised", "no append to the faces of the output mesh")
+    else:
+        ctx.undecided("C16-F1", site, "the output faces are appended at several places", f"{len(apps)} appends")
+    # no other structural edit of the face container
+    bad = [c for c in au.calls(fn) if isinstance(c.func, ast.Attribute) and tk(c.func.value, c) == OF
+           and c.func.attr in ("pop", "remove", "insert", "clear", "sort", "reverse")]
+    bad += [st for st in au.stmts(fn.body) if isinstance(st, ast.Delete) and any(isinstance(t, ast.Subscript) and tk(t.value, st) == OF for t in st.targets)]
+    ctx.check(not bad, "C16-F1", site, "the output face container is structurally edited after the faces were created",
+              "faces would no longer be in bijection with the input faces", note="faces never removed / reordered")
+    # rewrites: faces[i] = <element-wise image of row i>
+    for st, tg, val in hr.item_stores(fn):
+        if tk(tg.value, st) != OF or val is None:
+            continue
+        loops = [a for a in au.ancestors(st) if isinstance(a, ast.For)]
+        tr = _traversal_k(F, loops[0], OF, tk) if loops else None
+        if tr is None or tr[0] is None or not (isinstance(tg.slice, ast.Name) and F.root(tg.slice.id, st) == tr[0]):
+            ctx.undecided("C16-F1", S(st), "a row of the output faces is rewritten outside a traversal of the faces by index", "")
+            continue
+        verdict = _elementwise(F, val, st, loops[0], tr[0], tr[1], OF, tk)
+        if F.conds(st, stop=loops[0]):
+            verdict = None
+        if verdict is True:
+            ctx.ok("C16-F1", S(st), "row rewritten element-wise in place")
+        elif verdict is None:
+            ctx.undecided("C16-F1", S(st), "the new value of a row of the output faces is not recognised as an element-wise image of the old row", "")
+        else:
+            ctx.fail("C16-F1", S(st), "a row of the output faces is not rewritten element by element from its own old entries",
+                     f"corner k of output face i must stay the image of corner k of input face i: {verdict}")
+    if lp is None:
+        return
+    iF, Frow = trav
+    if Frow is None:
+        ctx.undecided("C16-V1", S(lp), "the faces are visited by index only", "")
+        return
+    CN = _Corners(F, lp, iF, Frow)
+    # ---- V1: the row of face i is [N(i,0), .., N(i,n-1)]
     row = apps[0].args[0]
-    okrow = False
-    kname = nname = None
-    if isinstance(row, ast.ListComp) and len(row.generators) == 1 and isinstance(row.generators[0].target, ast.Name):
+    okrow = None
+    why = ""
+    if isinstance(row, ast.ListComp) and len(row.generators) == 1 and isinstance(row.generators[0].target, ast.Name) and not row.generators[0].ifs:
         j = row.generators[0].target.id
         p = sym.to_poly(row.elt)
-        it = row.generators[0].iter
-        if isinstance(it, ast.Call) and au.call_tail(it) == "range" and len(it.args) == 1 and p.coeff(j) == sym.Poly.const(1):
-            rest = p.without(j)
-            if len(rest.atoms()) == 1 and rest.coeff(next(iter(rest.atoms()))) == sym.Poly.const(1) and rest.without(next(iter(rest.atoms()))).is_zero():
-                kname = next(iter(rest.atoms()))
-                nname = au.src(it.args[0])
-                okrow = au.src(b.resolve(it.args[0], at=apps[0], keep=(F,))) == f"len({F})"
-    ctx.check(okrow, "C16-V1", ctx.site(CUT, fn, apps[0]), "output face i is not [k + j for j in range(len(F))]",
-              "every corner of every face gets its own vertex copy before merging", note="fresh copy per corner")
-    if not okrow:
+        itr = row.generators[0].iter
+        if isinstance(itr, ast.Call) and au.call_tail(itr) == "range" and len(itr.args) == 1:
+            n_ = b.resolve(itr.args[0], at=apps[0], keep=(Frow, "self"))
+            if p.coeff(j) == sym.Poly.const(1):
+                rest = p.without(j)
+                ats = rest.atoms()
+                if len(ats) == 1 and rest == sym.Poly.atom(next(iter(ats))):
+                    if CN.is_len_row(n_):
+                        okrow = _offset_discipline(F, lp, next(iter(ats)), CN.is_len_row)
+                    elif order.fold_const(n_) is not None:
+                        okrow = (False, "the row has a constant number of entries, not one per corner of the face")
+            elif j not in p.atoms():
+                okrow = (False, "every entry of the row is the same number")
+    elif isinstance(row, ast.Call) and au.call_tail(row) == "list" and len(row.args) == 1 and isinstance(row.args[0], ast.Call) \
+            and au.call_tail(row.args[0]) == "range" and len(row.args[0].args) == 2:
+        lo, hi = (sym.to_poly(b.resolve(x, at=apps[0], keep=(Frow, "self")), atom_of=lambda e: "LEN" if CN.is_len_row(e) else None) for x in row.args[0].args)
+        if len(lo.atoms()) == 1 and lo == sym.Poly.atom(next(iter(lo.atoms()))) and (hi - lo) == sym.Poly.atom("LEN"):
+            okrow = _offset_discipline(F, lp, next(iter(lo.atoms())), CN.is_len_row)
+    elif isinstance(row, ast.Name):
+        # a local list filled with the corner numbers, one per corner
+        d = b.reaching(row.id, apps[0])
+        fresh = (isinstance(d, ast.List) and not d.elts) or (isinstance(d, ast.Call) and au.call_tail(d) == "list" and not d.args)
+        fills = [c for c in au.calls(lp) if au.call_tail(c) == "append" and isinstance(c.func.value, ast.Name) and c.func.value.id == row.id and len(c.args) == 1]
+        inside_face = fresh and any(getattr(b, "_last_def_stmt", None) is s for s in lp.body)
+        if inside_face and len(fills) == 1:
+            cls_ = [c for c in CN.corner_loops() if F.inside(fills[0], c[0])]
+            if cls_ and not F.conds(fills[0], stop=lp):
+                okrow = CN.number(fills[0].args[0], fills[0])
+            elif cls_:
+                okrow = (False, "a corner enters the row only under a condition")
+    if okrow is True:
+        ctx.ok("C16-V1", S(apps[0]), "fresh copy per corner, numbered in order")
+    elif okrow is None:
+        ctx.undecided("C16-V1", S(apps[0]), "the row created for an input face is not recognised", "")
+    else:
+        ctx.fail("C16-V1", S(apps[0]), "output face i is not the list of the numbers of its own corners, in order",
+                 "every corner of every face gets its own vertex copy before merging, copies of different faces must not overlap: " + okrow[1])
+    # ---- vertices: one append per corner, in a traversal faces x corners, with the position of the corner
+    vapps = [c for c in au.calls(fn) if au.call_tail(c) == "append" and isinstance(c.func, ast.Attribute) and tk(c.func.value, c) == OV and len(c.args) == 1]
+    if len(vapps) == 1:
+        va = vapps[0]
+        fl = [a for a in au.ancestors(va) if isinstance(a, ast.For)]
+        tr_f = _traversal(F, fl[-1], INF) if fl else None
+        if tr_f is None or len(fl) != 2:
+            ctx.undecided("C16-V1", S(va), "the vertex copies are not created in a traversal faces x corners of the input faces", "")
+        else:
+            CN2 = CN if fl[-1] is lp else _Corners(F, fl[-1], tr_f[0], tr_f[1])
+            cls_ = [c for c in CN2.corner_loops() if c[0] is fl[0]]
+            if not cls_ or cls_[0][2] is None:
+                ctx.undecided("C16-V1", S(va), "the vertex copies are not created in a loop over the corners of the face", "")
+            elif F.conds(va, stop=fl[-1]):
+                ctx.fail("C16-V1", S(va), "the copy made for corner j of face i is not appended once with the position of F[j]",
+                         "a vertex copy is created only under a condition: the copies no longer correspond to the corners")
+            else:
+                cl, j, v = cls_[0]
+                pos = F.resolve(va.args[0], va, keep=tuple(x for x in (v, j, tr_f[1]) if x))
+                if isinstance(pos, ast.Subscript) and F.table_key(pos.value, va) == "self.input_mesh.vertices" and isinstance(pos.slice, ast.Name):
+                    if pos.slice.id == v:
+                        ctx.ok("C16-V1", S(va), "vertex copy of corner j at the position of F[j]")
+                    else:
+                        ctx.fail("C16-V1", S(va), "the copy made for corner j of face i is not appended once with the position of F[j]",
+                                 "each output face must have the same corner positions as the input face: the position is read at another index")
+                else:
+                    ctx.undecided("C16-V1", S(va), "the position given to a vertex copy is not recognised", "")
+    elif not vapps:
+        ctx.undecided("C16-V1", site, "the creation of the vertex copies is not recognised", "")
+    else:
+        ctx.undecided("C16-V1", site, "vertex copies are appended at several places", "")
+    # ---- the duplicate table: D[v].add(N(i, j)) for every corner
+    adds = []
+    for c in au.calls(fn):
+        if au.call_tail(c) == "add" and isinstance(c.func.value, ast.Subscript) and isinstance(c.func.value.value, ast.Name) and len(c.args) == 1:
+            loops = [a for a in au.ancestors(c) if isinstance(a, ast.For)]
+            if len(loops) == 2 and _traversal(F, loops[-1], INF) is not None:
+                adds.append((c, loops))
+    if len(adds) != 1:
+        ctx.undecided("C16-V1", site, "the table recording the copies of each input vertex is not recognised", f"{len(adds)} candidate(s)")
         return
-    # vertices appended once per corner with the corner's position
-    inner = [s for s in lp.body if isinstance(s, ast.For) and isinstance(s.iter, ast.Call) and au.call_tail(s.iter) == "enumerate"
-             and au.src(s.iter.args[0]) == F and isinstance(s.target, ast.Tuple)]
-    okv = okd = False
-    if len(inner) == 1:
-        iv, v = (x.id for x in inner[0].target.elts)
-        vapps = [c for c in au.calls(inner[0]) if au.call_tail(c) == "append" and au.src(c.func.value) == f"{OUT}.vertices"]
-        if len(vapps) == 1 and not au.guards(vapps[0], stop=inner[0]):
-            pos = b.resolve(vapps[0].args[0], at=au.enclosing_stmt(vapps[0]), keep=(v, iv, F))
-            okv = au.src(pos) == f"self.input_mesh.vertices[{v}]"
-        for c in au.calls(inner[0]):
-            if au.call_tail(c) == "add" and isinstance(c.func.value, ast.Subscript) and au.src(c.func.value.slice) == v:
-                p = sym.to_poly(c.args[0])
-                okd = p == sym.Poly.atom(kname) + sym.Poly.atom(iv) and not au.guards(c, stop=inner[0])
-    all_vapps = [c for c in au.calls(fn) if au.call_tail(c) == "append" and au.src(c.func.value) == f"{OUT}.vertices"]
-    ctx.check(okv and len(all_vapps) == 1, "C16-V1", site, "the copy made for corner j of face i is not appended once with the position of F[j]",
-              "each output face must have the same corner positions as the input face", note="vertex k+j at position of F[j]")
-    ctx.check(okd, "C16-V1", site, "the duplicate table does not record copy k+j under the original vertex F[j]",
-              "the map from cut vertices to original vertices must be consistent face by face", note="duplicates[v] gets k+j")
-    # offset discipline
-    def _inc(s):
-        i = au.increment(s)
-        return i if i is not None and i[0] == kname else None
-    incs = [s for s in lp.body if _inc(s)]
-    init = [s for s in fn.body if isinstance(s, ast.Assign) and isinstance(s.targets[0], ast.Name) and s.targets[0].id == kname and not _inc(s)]
-    oko = len(incs) == 1 and _inc(incs[0])[1] == 1 and au.src(b.resolve(_inc(incs[0])[2], at=incs[0], keep=(F,))) == f"len({F})" \
-        and incs[0].lineno > apps[0].lineno and (not inner or incs[0].lineno > inner[0].lineno) \
-        and len(init) == 1 and au.const(init[0].value) == 0 and init[0].lineno < lp.lineno \
-        and len([s for s in au.stmts(fn.body) if _inc(s)]) == 1
-    ctx.check(oko, "C16-V1", site, f"running offset `{kname}` does not start at 0 and advance by the face size after the face's copies were made",
-              "copies of different faces must not overlap", note="offset advanced by len(F) after its uses")
+    c, loops = adds[0]
+    tr2 = _traversal(F, loops[-1], INF)
+    CN3 = CN if loops[-1] is lp else _Corners(F, loops[-1], tr2[0], tr2[1])
+    cls_ = [x for x in CN3.corner_loops() if x[0] is loops[0]]
+    if not cls_ or cls_[0][2] is None:
+        ctx.undecided("C16-V1", S(c), "the copies of each input vertex are not recorded in a loop over the corners of the face", "")
+        return
+    cl, j, v = cls_[0]
+    key_ok = isinstance(c.func.value.slice, ast.Name) and c.func.value.slice.id == v
+    num = CN3.number(c.args[0], c) if not F.conds(c, stop=loops[-1]) else None
+    if key_ok and num is True:
+        ctx.ok("C16-V1", S(c), "duplicates[v] gets the number of the corner")
+    elif key_ok and isinstance(num, tuple):
+        ctx.fail("C16-V1", S(c), "the duplicate table does not record the number of the corner under the original vertex of that corner", num[1])
+    elif not key_ok and j is not None and isinstance(c.func.value.slice, ast.Name) and c.func.value.slice.id == j:
+        ctx.fail("C16-V1", S(c), "the duplicate table does not record the number of the corner under the original vertex of that corner", "the table is keyed by the corner index")
+    else:
+        ctx.undecided("C16-V1", S(c), "what the duplicate table records is not recognised", "")
 
 
+def _traversal_k(F, lp, container, tk):
+    """_traversal with the container compared through the mesh-alias aware key function tk"""
+    it, tg = lp.iter, lp.target
+    if tk(it, lp) == container and isinstance(tg, ast.Name):
+        return (None, tg.id)
+    if isinstance(it, ast.Call) and au.call_tail(it) == "enumerate" and len(it.args) == 1 and tk(it.args[0], lp) == container \
+            and isinstance(tg, ast.Tuple) and len(tg.elts) == 2 and all(isinstance(x, ast.Name) for x in tg.elts):
+        return (tg.elts[0].id, tg.elts[1].id)
+    if isinstance(it, ast.Call) and au.call_tail(it) == "range" and len(it.args) == 1 and isinstance(tg, ast.Name):
+        n = F.b.resolve(it.args[0], at=lp, keep=("self",))
+        if isinstance(n, ast.Call) and au.call_tail(n) == "len" and len(n.args) == 1 and tk(n.args[0], lp) == container:
+            return (tg.id, None)
+    return None
+
+
+def _is_row_k(F, e, at, container, idx, row, tk):
+    if isinstance(e, ast.Name) and row is not None and F.root(e.id, at) == row:
+        return True
+    if isinstance(e, ast.Subscript) and idx is not None and isinstance(e.slice, ast.Name) and F.root(e.slice.id, at) == idx and tk(e.value, at) == container:
+        return True
+    if isinstance(e, ast.Name):
+        d = F.b.reaching(e.id, at)
+        if d is not None and not isinstance(d, ast.Name):
+            return _is_row_k(F, d, at, container, idx, row, tk)
+    return False
+
+
+def _elementwise(F, val, st, lp, idx, row, OF, tk):
+    """val (assigned to faces[idx] inside traversal lp) is built from the old row one element per element, in order:
+    True | None (unknown) | text of the recognised violation"""
+    b = F.b
+    v = val
+    if isinstance(v, ast.Name):
+        d = b.reaching(v.id, st)
+        if isinstance(d, ast.List) and not d.elts or (isinstance(d, ast.Call) and au.call_tail(d) == "list" and not d.args):
+            # a list filled by appends in an inner loop over the row
+            apps = [c for c in au.calls(lp) if au.call_tail(c) == "append" and isinstance(c.func.value, ast.Name) and c.func.value.id == v.id]
+            if len(apps) != 1:
+                return None
+            inner = [a for a in au.ancestors(apps[0]) if isinstance(a, ast.For) and F.inside(a, lp)]
+            if len(inner) != 1 or not isinstance(inner[0].target, ast.Name):
+                return None
+            it = inner[0].iter
+            if isinstance(it, ast.Call) and au.call_tail(it) == "map" and len(it.args) == 2:
+                it = it.args[1]
+            if not _is_row_k(F, it, inner[0], OF, idx, row, tk):
+                return None
+            if sk.path_conds(apps[0], stop=inner[0]):
+                return "an element of the row is kept only under a condition"
+            if not F.before(apps[0], st):
+                return None
+            return True
+        if d is not None:
+            v = d
+    wrap = None
+    while isinstance(v, ast.Call) and au.call_tail(v) in ("list", "tuple", "sorted", "set", "frozenset") and len(v.args) == 1 and not v.keywords:
+        if au.call_tail(v) in ("sorted", "set", "frozenset"):
+            wrap = au.call_tail(v)
+        v = v.args[0]
+    if isinstance(v, (ast.ListComp, ast.GeneratorExp)) and len(v.generators) == 1 and isinstance(v.generators[0].target, ast.Name):
+        g = v.generators[0]
+        it = g.iter
+        if isinstance(it, ast.Call) and au.call_tail(it) == "map" and len(it.args) == 2:
+            it = it.args[1]
+        if not _is_row_k(F, it, st, OF, idx, row, tk):
+            return None
+        if g.ifs:
+            return "the comprehension filters the corners"
+        if g.target.id not in au.names(v.elt):
+            return "the new entries do not depend on the old ones"
+        if wrap:
+            return f"{wrap}(..) loses the order of the corners"
+        return True
+    if isinstance(v, ast.Call) and au.call_tail(v) == "map" and len(v.args) == 2 and _is_row_k(F, v.args[1], st, OF, idx, row, tk):
+        return True if not wrap else f"{wrap}(..) loses the order of the corners"
+    return None
+
+
+# --------------------------------------------------------------------------------------------- C16-U1
 def u1_merges(ctx):
-    fn = _fn(ctx, "_build_mesh_with_cuts")
-    site = ctx.site(CUT, fn)
-    OUT = "self._output_mesh"
-    unions = [c for c in au.calls(fn) if au.call_tail(c) == "union"]
+    fn0, F = _flat(ctx, "_build_mesh_with_cuts")
+    fn = F.fn
+    site = ctx.site(CUT, fn0)
+
+    def S(n):
+        return ctx.site(CUT, fn0, n)
+    OUT = _out_mesh(F)
+    if OUT is None:
+        ctx.undecided("C16-U1", site, "the mesh object that is being built is not recognised", "")
+        return
+    OF = OUT + ".faces"
+    unions = [c for c in au.calls(fn) if au.call_tail(c) == "union" and len(c.args) == 2]
     if not unions:
-        ctx.fail("C16-U1", site, "vertex copies are never merged (no union call)", "")
+        has_uf = any(isinstance(c, ast.Call) and au.call_tail(c) == "UnionFind" for c in au.calls(fn))
+        finds = [c for c in au.calls(fn) if au.call_tail(c) == "find"]
+        if F.impure_self_calls(fn) or not (has_uf and finds):
+            ctx.undecided("C16-U1", site, "the merging of the vertex copies is not visible", "")
+        else:
+            ctx.fail("C16-U1", site, "vertex copies are never merged (no union call)", "every edge of the mesh is opened")
         return
-    lp = [a for a in au.ancestors(unions[0]) if isinstance(a, ast.For)]
-    ok_loop = bool(lp) and au.src(lp[0].iter) == "self.input_mesh.interior_edges" and isinstance(lp[0].target, ast.Name)
-    ctx.check(ok_loop, "C16-U1", site, "merging does not range over the interior edges of the input mesh",
-              "border edges have a single face: there is nothing to merge across them")
-    if not ok_loop:
+    lps = [a for a in au.ancestors(unions[0]) if isinstance(a, ast.For)]
+    if not lps:
+        ctx.undecided("C16-U1", site, "merging is not done in a loop over the edges", "")
         return
-    e = lp[0].target.id
-    # endpoints and roles
+    lp = lps[-1]
+    # domain: interior edges, or all edges with an edge-level border test
+    it, tg = lp.iter, lp.target
+    e = None
     ends = None
+    domain = None
+    if isinstance(tg, ast.Name) and F.table_key(it, lp) == "self.input_mesh.interior_edges":
+        e, domain = tg.id, "interior"
+    elif isinstance(tg, ast.Name) and (F.table_key(it, lp) == "self.input_mesh.id_edges" or
+                                       (isinstance(it, ast.Call) and au.call_tail(it) == "range" and "input_mesh.edges" in au.src(F.b.resolve(it.args[0], at=lp, keep=("self",))))):
+        e, domain = tg.id, "all"
+    elif isinstance(it, ast.Call) and au.call_tail(it) == "enumerate" and len(it.args) == 1 and F.table_key(it.args[0], lp) == "self.input_mesh.edges" \
+            and isinstance(tg, ast.Tuple) and len(tg.elts) == 2 and isinstance(tg.elts[0], ast.Name):
+        e, domain = tg.elts[0].id, "all"
+        if isinstance(tg.elts[1], ast.Tuple) and len(tg.elts[1].elts) == 2 and all(isinstance(x, ast.Name) for x in tg.elts[1].elts):
+            ends = [x.id for x in tg.elts[1].elts]
+    if e is None:
+        ctx.undecided("C16-U1", S(lp), "the loop that merges the vertex copies does not range over the edges in a recognised way", "")
+        return
     role = {}
-    for st in au.stmts(lp[0].body):
+    for st in au.stmts(lp.body):
         if isinstance(st, ast.Assign) and isinstance(st.targets[0], ast.Tuple) and len(st.targets[0].elts) == 2 \
-                and au.src(st.value) == f"self.input_mesh.edges[{e}]":
+                and isinstance(st.value, ast.Subscript) and F.table_key(st.value.value, st) == "self.input_mesh.edges" \
+                and isinstance(st.value.slice, ast.Name) and st.value.slice.id == e and all(isinstance(x, ast.Name) for x in st.targets[0].elts):
             ends = [x.id for x in st.targets[0].elts]
         if isinstance(st, ast.Assign) and isinstance(st.targets[0], ast.Tuple) and len(st.targets[0].elts) == 3 \
                 and isinstance(st.value, ast.Call) and au.call_tail(st.value) == "direct_face" and len(st.value.args) == 3 \
-                and au.const(st.value.args[2]) is True:
+                and au.const(st.value.args[2]) is True and all(isinstance(x, ast.Name) for x in st.targets[0].elts):
             a, b_ = au.src(st.value.args[0]), au.src(st.value.args[1])
             names = [x.id for x in st.targets[0].elts]
             role[names[0]] = ("face", (a, b_))
             role[names[1]] = ("idx", a, (a, b_))
             role[names[2]] = ("idx", b_, (a, b_))
+    if ends is None:
+        ctx.undecided("C16-U1", S(lp), "the end points of the edge being closed are not recognised", "")
+        return
+
+    def classify(t, pol):
+        """'cut-ok' | 'cut-bad' | 'border-ok' | 'border-bad' | 'vertex-border' | 'other' for a guard atom of a union"""
+        if isinstance(t, ast.Compare) and len(t.ops) == 1 and isinstance(t.ops[0], ast.In) and isinstance(t.left, ast.Name) and t.left.id == e:
+            tab = F.table_key(t.comparators[0], lp)
+            if tab == "self.cut_edges":
+                return "cut-ok" if not pol else "cut-bad"
+            if tab == "self.input_mesh.boundary_edges":
+                return "border-ok" if not pol else "border-bad"
+            if tab == "self.input_mesh.interior_edges":
+                return "border-ok" if pol else "border-bad"
+        if isinstance(t, ast.Call) and au.call_tail(t) == "is_edge_on_border":
+            return "border-ok" if not pol else "border-bad"
+        if any(isinstance(n, ast.Call) and au.call_tail(n) == "is_vertex_on_border" for n in ast.walk(t)) or \
+                any(isinstance(n, ast.Attribute) and n.attr in ("boundary_vertices", "is_vertex_on_border") for n in ast.walk(t)):
+            return "vertex-border"
+        x = t.left if isinstance(t, ast.Compare) and len(t.ops) == 1 and isinstance(t.ops[0], (ast.Is, ast.Eq)) and hr.is_none(t.comparators[0]) else None
+        if x is not None and not pol:
+            return "not-none"
+        return "other"
     for c in unions:
-        gs = []
-        for t, pol in au.guards(c, stop=lp[0]):
-            while isinstance(t, ast.UnaryOp) and isinstance(t.op, ast.Not):
-                t, pol = t.operand, not pol
-            gs.append((t, pol))
-        guarded = any(isinstance(t, ast.Compare) and isinstance(t.ops[0], ast.NotIn) and pol and au.src(t.left) == e
-                      and au.src(t.comparators[0]) == "self.cut_edges" for t, pol in gs) or \
-            any(isinstance(t, ast.Compare) and isinstance(t.ops[0], ast.In) and not pol and au.src(t.left) == e
-                and au.src(t.comparators[0]) == "self.cut_edges" for t, pol in gs)
-        ctx.check(guarded and len(gs) == 1, "C16-U1", ctx.site(CUT, fn, c),
-                  "copies are merged across an edge without (only) the test `edge not in self.cut_edges`",
-                  "only the edges reported as cut may be opened, and every other interior edge must be closed", note="merge iff not a cut edge")
-        good = False
-        if len(c.args) == 2 and ends:
-            verts = []
-            for a in c.args:
-                # OUT.faces[Fk][idx]
-                if isinstance(a, ast.Subscript) and isinstance(a.value, ast.Subscript) and au.src(a.value.value) == f"{OUT}.faces":
-                    fk, ik = au.src(a.value.slice), au.src(a.slice)
-                    rf, ri = role.get(fk), role.get(ik)
-                    if rf and ri and rf[0] == "face" and ri[0] == "idx" and ri[2] == rf[1]:
-                        verts.append((ri[1], rf[1]))
-            good = len(verts) == 2 and verts[0][0] == verts[1][0] and verts[0][1] == (verts[1][1][1], verts[1][1][0]) \
-                and verts[0][0] in ends
-        ctx.check(good, "C16-U1", ctx.site(CUT, fn, c),
-                  f"`{au.src(c)[:90]}` does not merge the copy of one endpoint in the face on one side with the copy of the SAME endpoint on the other side",
-                  "direct_face(a, b, True) returns (face, index of a, index of b): merging the copy of a with a copy of b collapses the edge",
-                  note="copy of x in F1 merged with copy of x in F2")
+        kinds = [classify(t, pol) for t, pol in F.conds(c, stop=lp)]
+        if "cut-bad" in kinds:
+            ctx.fail("C16-U1", S(c), "copies are merged across the edges that ARE in self.cut_edges",
+                     "only the edges reported as cut may be opened, and every other interior edge must be closed")
+        elif "vertex-border" in kinds:
+            ctx.fail("C16-U1", S(c), "the merge across an edge depends on its end points lying on the border (a vertex test, not an edge test)",
+                     "an interior edge whose two end points are border vertices is taken for a border edge and stays open although it is not "
+                     "reported in cut_edges")
+        elif "border-bad" in kinds:
+            ctx.fail("C16-U1", S(c), "copies are merged only across border edges", "")
+        elif "other" in kinds:
+            ctx.undecided("C16-U1", S(c), "a merge of vertex copies has a guard the rule does not recognise", "")
+        elif "cut-ok" not in kinds:
+            _absent(ctx, F, lp, "C16-U1", S(c), "copies are merged across an edge without the test `edge not in self.cut_edges`",
+                    "only the edges reported as cut may be opened, and every other interior edge must be closed")
+        elif domain == "all" and "border-ok" not in kinds and "not-none" not in kinds:
+            _absent(ctx, F, lp, "C16-U1", S(c), "merging ranges over all edges without excluding the border edges",
+                    "border edges have a single face: there is nothing to merge across them (direct_face returns None)")
+        else:
+            ctx.ok("C16-U1", S(c), "merge iff interior and not a cut edge")
+        good = None
+        verts = []
+        for a in c.args:
+            if isinstance(a, ast.Subscript) and isinstance(a.value, ast.Name):
+                d_ = F.definition(a.value.id, c)          # face1 = out.faces[F1] ; face1[iA1]
+                if isinstance(d_, ast.Subscript):
+                    a = ast.Subscript(value=d_, slice=a.slice, ctx=ast.Load())
+            if isinstance(a, ast.Subscript) and isinstance(a.value, ast.Subscript) and _mesh_key(F, a.value.value, c, OUT) == OF \
+                    and isinstance(a.value.slice, ast.Name) and isinstance(a.slice, ast.Name):
+                rf, ri = role.get(a.value.slice.id), role.get(a.slice.id)
+                if rf and ri and rf[0] == "face" and ri[0] == "idx" and ri[2] == rf[1]:
+                    verts.append((ri[1], rf[1]))
+        if len(verts) == 2:
+            good = verts[0][0] == verts[1][0] and verts[0][1] == (verts[1][1][1], verts[1][1][0]) and verts[0][0] in ends
+        if good is True:
+            ctx.ok("C16-U1", S(c), "copy of x in F1 merged with copy of x in F2")
+        elif good is False:
+            ctx.fail("C16-U1", S(c), "a merge does not pair the copy of one endpoint in the face on one side with the copy of the SAME endpoint on the other side",
+                     "direct_face(a, b, True) returns (face, index of a, index of b): merging the copy of a with a copy of b collapses the edge")
+        else:
+            ctx.undecided("C16-U1", S(c), "the two vertex copies merged by a union are not recognised", "")
     merged = set()
     for c in unions:
         for a in c.args[:1]:
-            if isinstance(a, ast.Subscript):
-                r = role.get(au.src(a.slice))
+            if isinstance(a, ast.Subscript) and isinstance(a.slice, ast.Name):
+                r = role.get(a.slice.id)
                 if r:
                     merged.add(r[1])
-    ctx.check(ends is not None and merged == set(ends), "C16-U1", site,
-              f"both endpoints of a closed edge must be merged; merged: {sorted(merged)}", "", note="both endpoints merged")
+    if merged == set(ends):
+        ctx.ok("C16-U1", site, "both endpoints merged")
+    elif merged and merged < set(ends) and len(unions) == 1:
+        _absent(ctx, F, lp, "C16-U1", site, "only one end point of a closed edge is merged", "both endpoints of a closed edge must be merged")
+    else:
+        ctx.undecided("C16-U1", site, "which end points of a closed edge are merged is not recognised", "")
 
 
+# --------------------------------------------------------------------------------------------- C16-M1
 def m1_maps(ctx):
-    fn = _fn(ctx, "_build_mesh_with_cuts")
-    site = ctx.site(CUT, fn)
-    OUT = "self._output_mesh"
-    # first-appearance renumbering: for F in faces: for v in F: if v in imap: continue; imap[v] = i; i += 1
-    ok = False
+    fn0, F = _flat(ctx, "_build_mesh_with_cuts")
+    fn = F.fn
+    site = ctx.site(CUT, fn0)
+    b = F.b
+
+    def S(n):
+        return ctx.site(CUT, fn0, n)
+    OUT = _out_mesh(F)
+    if OUT is None:
+        ctx.undecided("C16-M1", site, "the mesh object that is being built is not recognised", "")
+        return
+    OF, OV = OUT + ".faces", OUT + ".vertices"
+
+    def tk(e, at):
+        return _mesh_key(F, e, at, OUT)
+    ufn = [t.id for w in au.stmts(fn.body) if isinstance(w, (ast.Assign, ast.AnnAssign)) and isinstance(w.value, ast.Call) and au.call_tail(w.value) == "UnionFind"
+           for t in au.assign_targets(w) if isinstance(t, ast.Name)]
+    UF = ufn[0] if len(ufn) == 1 else None
+
+    def is_find(e, of=None):
+        return isinstance(e, ast.Call) and isinstance(e.func, ast.Attribute) and e.func.attr == "find" and isinstance(e.func.value, ast.Name) \
+            and e.func.value.id == UF and len(e.args) == 1 and (of is None or au.src(e.args[0]) == of)
+
+    def is_find_fn(e):
+        return isinstance(e, ast.Attribute) and e.attr == "find" and isinstance(e.value, ast.Name) and e.value.id == UF
+    # ---- first-appearance renumbering: for F in faces: for v in F: [x = v | uf.find(v)]; if x not in imap: imap[x] = counter; counter += 1
     imap = None
-    for st in au.stmts(fn.body):
-        if isinstance(st, ast.Assign) and isinstance(st.targets[0], ast.Subscript) and isinstance(st.targets[0].value, ast.Name) \
-                and isinstance(st.value, ast.Name):
-            loops = [a for a in au.ancestors(st) if isinstance(a, ast.For)]
-            if len(loops) == 2 and au.src(loops[1].iter) == f"{OUT}.faces" and isinstance(loops[0].target, ast.Name) \
-                    and au.src(st.targets[0].slice) == loops[0].target.id and au.src(loops[0].iter) == au.src(loops[1].target):
-                d, cnt, v = st.targets[0].value.id, st.value.id, loops[0].target.id
-                blk, _ = au.enclosing_block(st)
-                inc = [s for s in blk if au.increment(s) is not None and au.increment(s)[0] == cnt and au.increment(s)[1] == 1
-                       and au.const(au.increment(s)[2]) == 1]
-                init = [s for s in fn.body if isinstance(s, ast.Assign) and au.src(s.targets[0]) == cnt and au.const(s.value) == 0]
-                conds = au.canon_conditions(st, stop=loops[0])
-                guarded = conds == [f"{v} not in {d}"]
-                if len(inc) == 1 and guarded and init and inc[0].lineno > st.lineno:
-                    ok, imap = True, d
-    ctx.check(ok, "C16-M1", site, "merged copies are not renumbered 0,1,2,.. in order of first appearance (once each)",
-              "the cut mesh must index its vertices contiguously and each merged class exactly once", note="first-appearance renumbering")
+    verdict = None
+    for st, tg, val in hr.item_stores(fn):
+        if not (isinstance(tg.value, ast.Name) and isinstance(tg.slice, ast.Name)) or val is None:
+            continue
+        loops = [a for a in au.ancestors(st) if isinstance(a, ast.For)]
+        if len(loops) != 2:
+            continue
+        tr = _traversal_k(F, loops[1], OF, tk)
+        if tr is None:
+            continue
+        inner = loops[0]
+        it = inner.iter
+        through_find = False
+        if isinstance(it, ast.Call) and au.call_tail(it) == "map" and len(it.args) == 2 and is_find_fn(it.args[0]):
+            it, through_find = it.args[1], True
+        if not (_is_row_k(F, it, inner, OF, tr[0], tr[1], tk) and isinstance(inner.target, ast.Name)):
+            continue
+        d, x = tg.value.id, tg.slice.id
+        vcorner = inner.target.id
+        xr = b.reaching(x, st) if x != vcorner else None
+        is_corner = x == vcorner or F.root(x, st) == vcorner or (xr is not None and is_find(xr, vcorner))
+        if not is_corner:
+            continue
+        conds = au.canon_conditions(st, stop=inner)
+        guarded = conds == [f"{x} not in {d}"]
+        counter_ok = None
+        if isinstance(val, ast.Call) and au.call_tail(val) == "len" and len(val.args) == 1 and au.src(val.args[0]) == d:
+            counter_ok = True
+        elif isinstance(val, ast.Name):
+            cnt = val.id
+            incs = [s for s in au.stmts(inner.body) if (i := au.increment(s)) is not None and i[0] == cnt]
+            init = b.reaching(cnt, loops[1])
+            if len(incs) == 1 and au.increment(incs[0])[1] == 1 and au.const(au.increment(incs[0])[2]) == 1 \
+                    and au.canon_conditions(incs[0], stop=inner) == conds and F.before(st, incs[0]) and init is not None and au.const(init) == 0 \
+                    and len([s for s in au.stmts(fn.body) if (i := au.increment(s)) is not None and i[0] == cnt]) == 1:
+                counter_ok = True
+            elif not incs:
+                counter_ok = False
+        imap = d
+        if guarded and counter_ok is True:
+            verdict = True
+        elif counter_ok is False:
+            verdict = "the index given to a merged class never advances: every class gets the same index"
+        elif not guarded and not conds and counter_ok:
+            verdict = "a class is renumbered every time one of its copies is met"
+        else:
+            verdict = None
+        break
+    if verdict is True:
+        ctx.ok("C16-M1", site, "first-appearance renumbering")
+    elif verdict is None:
+        ctx.undecided("C16-M1", site, "the renumbering of the merged vertex copies is not recognised", "")
+    else:
+        ctx.fail("C16-M1", site, "merged copies are not renumbered 0,1,2,.. in order of first appearance (once each)",
+                 "the cut mesh must index its vertices contiguously and each merged class exactly once: " + verdict)
     if not imap:
         return
-    # positions follow: order[imap[u]] = vertices[u] for u in imap
-    okp = False
-    for st in au.stmts(fn.body):
-        if isinstance(st, ast.Assign) and isinstance(st.targets[0], ast.Subscript) and isinstance(st.targets[0].slice, ast.Subscript) \
-                and au.src(st.targets[0].slice.value) == imap and isinstance(st.value, ast.Subscript) \
-                and au.src(st.value.value) == f"{OUT}.vertices" and au.src(st.value.slice) == au.src(st.targets[0].slice.slice):
-            okp = True
-    ctx.check(okp, "C16-M1", site, "vertex positions are not moved to their new index with the same renumbering", "", note="positions follow the renumbering")
-    # duplicates mapped through imap[uf.find(u)], ref_vertex inverse
-    okd = okr = False
-    for st in au.stmts(fn.body):
-        if isinstance(st, ast.Assign) and isinstance(st.targets[0], ast.Subscript) and isinstance(st.value, ast.SetComp):
-            g = st.value.generators[0]
-            if au.src(st.targets[0].value) == au.src(g.iter.value if isinstance(g.iter, ast.Subscript) else g.iter) \
-                    and isinstance(g.target, ast.Name):
-                u = g.target.id
-                ufn = [t.id for w in fn.body if isinstance(w, ast.Assign) and isinstance(w.value, ast.Call) and au.call_tail(w.value) == "UnionFind"
-                       for t in w.targets if isinstance(t, ast.Name)]
-                okd = len(ufn) == 1 and au.src(st.value.elt).replace(" ", "") == f"{imap}[{ufn[0]}.find({u})]" \
-                    and au.src(g.iter.slice) == au.src(st.targets[0].slice)
-        if isinstance(st, ast.Assign) and isinstance(st.targets[0], ast.Subscript) and au.is_self_attr(st.targets[0].value, "ref_vertex"):
-            loops = [a for a in au.ancestors(st) if isinstance(a, ast.For)]
-            if len(loops) == 2 and isinstance(loops[0].target, ast.Name) and isinstance(loops[1].target, ast.Name):
-                u, v = loops[0].target.id, loops[1].target.id
-                okr = au.src(st.targets[0].slice) == u and au.src(st.value) == v and au.src(loops[0].iter).endswith(f"[{v}]") \
-                    and au.src(loops[0].iter).startswith(au.src(loops[1].iter))
-    ctx.check(okd, "C16-M1", site, "the duplicate table is not mapped through the same merge + renumbering as the faces", "",
-              note="duplicates -> imap[find(u)]")
-    ctx.check(okr, "C16-M1", site, "ref_vertex is not the inverse of the duplicate table (ref[u] = v for every copy u of v)",
-              "every cut vertex must map to the original vertex it is a copy of, and every original vertex must be hit", note="ref_vertex inverse")
+    IM = F.root(imap, fn.body[-1])
+
+    def is_imap(e, at):
+        return isinstance(e, ast.Name) and F.root(e.id, at) == IM
+    # ---- positions follow: order[imap[u]] = vertices[u]
+    okp = None
+    for st, tg, val in hr.item_stores(fn):
+        if val is None or not isinstance(tg.value, ast.Name):
+            continue
+        new_i, old_i = tg.slice, None
+        # value: OUT.vertices[u]  |  Pu of `for u, Pu in enumerate(OUT.vertices)`
+        if isinstance(val, ast.Subscript) and tk(val.value, st) == OV:
+            old_i = val.slice
+        elif isinstance(val, ast.Name):
+            for a in au.ancestors(st):
+                if isinstance(a, ast.For) and isinstance(a.iter, ast.Call) and au.call_tail(a.iter) == "enumerate" and len(a.iter.args) == 1 \
+                        and tk(a.iter.args[0], a) == OV and isinstance(a.target, ast.Tuple) and len(a.target.elts) == 2 \
+                        and isinstance(a.target.elts[1], ast.Name) and a.target.elts[1].id == val.id:
+                    old_i = a.target.elts[0]
+        if old_i is None:
+            continue
+        # new index: imap[old]  |  new_u of `for u, new_u in imap.items()`
+        if isinstance(new_i, ast.Subscript) and is_imap(new_i.value, st):
+            okp = au.src(new_i.slice) == au.src(old_i)
+        elif isinstance(new_i, ast.Name):
+            for a in au.ancestors(st):
+                if isinstance(a, ast.For) and isinstance(a.iter, ast.Call) and au.call_tail(a.iter) == "items" and is_imap(a.iter.func.value, a) \
+                        and isinstance(a.target, ast.Tuple) and len(a.target.elts) == 2 and all(isinstance(x, ast.Name) for x in a.target.elts):
+                    okp = a.target.elts[1].id == new_i.id and au.src(old_i) == a.target.elts[0].id
+    if okp is True:
+        ctx.ok("C16-M1", site, "positions follow the renumbering")
+    elif okp is False:
+        ctx.fail("C16-M1", site, "vertex positions are not moved to their new index with the same renumbering", "")
+    else:
+        ctx.undecided("C16-M1", site, "how the vertex positions follow the renumbering is not recognised", "")
+    # ---- ref_vertex: ref[u] = v for every u in the image (under imap[find(.)]) of the copies recorded for v
+    # abstract description of the construction: (outer generator over D, inner iterable, key, value, node)
+    desc = None
+    refs = [(st, tg, val) for st, tg, val in hr.item_stores(fn) if F.table_key(tg.value, st) == "self.ref_vertex" and val is not None]
+    whole = [st for st in au.stmts(fn.body) if isinstance(st, (ast.Assign, ast.AnnAssign)) and st.value is not None
+             and any(au.is_self_attr(t, "ref_vertex") for t in au.assign_targets(st)) and isinstance(st.value, ast.DictComp)]
+    if len(refs) == 1 and not whole:
+        st, tg, val = refs[0]
+        loops = [a for a in au.ancestors(st) if isinstance(a, ast.For)]
+        if len(loops) == 2:
+            desc = (loops[1].target, loops[1].iter, loops[0].target, loops[0].iter, tg.slice, val, st)
+    elif len(whole) == 1 and not refs:
+        dc = whole[0].value
+        if len(dc.generators) == 2 and not dc.generators[0].ifs and not dc.generators[1].ifs:
+            g0, g1 = dc.generators
+            desc = (g0.target, g0.iter, g1.target, g1.iter, dc.key, dc.value, whole[0])
+    if desc is None:
+        ctx.undecided("C16-M1", site, "the construction of ref_vertex is not recognised", f"{len(refs)} item store(s)")
+        return
+    otg, oit, itg, iit, kexp, vexp, node = desc
+    D = vname = cname = None
+    if isinstance(otg, ast.Name) and isinstance(oit, ast.Name):
+        D, vname = oit.id, otg.id
+    elif isinstance(otg, ast.Name) and isinstance(oit, ast.Call) and au.call_tail(oit) == "keys" and isinstance(oit.func.value, ast.Name):
+        D, vname = oit.func.value.id, otg.id
+    elif isinstance(otg, ast.Tuple) and len(otg.elts) == 2 and isinstance(oit, ast.Call) and au.call_tail(oit) == "items" \
+            and isinstance(oit.func.value, ast.Name) and all(isinstance(x, ast.Name) for x in otg.elts):
+        D, vname, cname = oit.func.value.id, otg.elts[0].id, otg.elts[1].id
+    if D is None or not isinstance(itg, ast.Name) or not isinstance(kexp, ast.Name) or not isinstance(vexp, ast.Name):
+        ctx.undecided("C16-M1", S(node), "the loops that fill ref_vertex are not recognised", "")
+        return
+    uname = itg.id
+
+    def mapping_of(e, D_, vn, cn):
+        """'mapped' when e = {imap[find(u)] for u in <copies of vn>}, 'raw' when e = <copies>, ('bad', text) or None"""
+        def is_copies(x):
+            if cn and isinstance(x, ast.Name) and x.id == cn:
+                return True
+            return isinstance(x, ast.Subscript) and isinstance(x.value, ast.Name) and x.value.id == D_ and isinstance(x.slice, ast.Name) and x.slice.id == vn
+        if is_copies(e):
+            return "raw"
+        if isinstance(e, (ast.SetComp, ast.ListComp, ast.GeneratorExp)) and len(e.generators) == 1 and isinstance(e.generators[0].target, ast.Name):
+            g = e.generators[0]
+            if not is_copies(g.iter):
+                return None
+            u = g.target.id
+            elt = e.elt
+            if isinstance(elt, ast.Subscript) and is_imap(elt.value, node) and is_find(elt.slice, u) and not g.ifs:
+                return "mapped"
+            if isinstance(elt, ast.Subscript) and is_imap(elt.value, node) and isinstance(elt.slice, ast.Name) and elt.slice.id == u:
+                return ("bad", "the copies are renumbered without being taken to their merged representative (uf.find)")
+            return None
+        if isinstance(e, ast.Call) and au.call_tail(e) in ("set", "list", "sorted", "frozenset") and len(e.args) == 1:
+            return mapping_of(e.args[0], D_, vn, cn)
+        return None
+    m_inner = mapping_of(iit, D, vname, cname)
+    # a separate pass may have mapped the table before: D[v] = {imap[find(u)] for u in D[v]}  |  D = {v: {..} for v, c in D.items()}
+    passes = []
+    Droot = F.root(D, node)
+    for st2, tg2, val2 in hr.item_stores(fn):
+        if isinstance(tg2.value, ast.Name) and F.root(tg2.value.id, st2) == Droot and val2 is not None and F.before(st2, node) \
+                and not isinstance(val2, ast.Call) and not (isinstance(val2, ast.Set)):
+            lp2 = [a for a in au.ancestors(st2) if isinstance(a, ast.For)]
+            if lp2 and isinstance(lp2[0].target, ast.Name) and isinstance(tg2.slice, ast.Name) and tg2.slice.id == lp2[0].target.id \
+                    and any(isinstance(n, ast.Name) and F.root(n.id, st2) == Droot for n in ast.walk(lp2[0].iter)):
+                passes.append(mapping_of(val2, tg2.value.id, tg2.slice.id, None))
+    for st2 in au.stmts(fn.body):
+        for nm, v2 in sym.split_assign(st2):
+            if nm == D and isinstance(v2, ast.DictComp) and len(v2.generators) == 1 and F.before(st2, node):
+                g = v2.generators[0]
+                if isinstance(g.iter, ast.Call) and au.call_tail(g.iter) == "items" and isinstance(g.iter.func.value, ast.Name) \
+                        and isinstance(g.target, ast.Tuple) and len(g.target.elts) == 2 and all(isinstance(x, ast.Name) for x in g.target.elts) \
+                        and au.src(v2.key) == g.target.elts[0].id:
+                    passes.append(mapping_of(v2.value, g.iter.func.value.id, g.target.elts[0].id, g.target.elts[1].id))
+    store_ok = kexp.id == uname and vexp.id == vname
+    store_rev = kexp.id == vname and vexp.id == uname
+    n_mapped = (1 if m_inner == "mapped" else 0) + sum(1 for p_ in passes if p_ == "mapped")
+    bad = [p_ for p_ in passes + [m_inner] if isinstance(p_, tuple)]
+    if bad:
+        ctx.fail("C16-M1", site, "the duplicate table is not mapped through the same merge + renumbering as the faces", bad[0][1])
+    elif m_inner is None or any(p_ is None for p_ in passes):
+        ctx.undecided("C16-M1", site, "how the recorded copies are taken to the final vertex indices is not recognised", "")
+    elif n_mapped == 1:
+        ctx.ok("C16-M1", site, "duplicates -> imap[find(u)]")
+    elif n_mapped == 0:
+        _absent(ctx, F, fn, "C16-M1", site, "the duplicate table is not mapped through the same merge + renumbering as the faces",
+                "ref_vertex is keyed by the corner numbers of the un-merged mesh")
+    else:
+        ctx.fail("C16-M1", site, "the duplicate table is not mapped through the same merge + renumbering as the faces", "the renumbering is applied twice")
+    if store_ok:
+        ctx.ok("C16-M1", S(node), "ref_vertex inverse")
+    elif store_rev:
+        ctx.fail("C16-M1", S(node), "ref_vertex is not the inverse of the duplicate table (ref[u] = v for every copy u of v)",
+                 "the map is stored the wrong way round: every cut vertex must map to the original vertex it is a copy of")
+    else:
+        ctx.undecided("C16-M1", S(node), "what ref_vertex stores is not recognised", "")
+
+
+# --------------------------------------------------------------------------------------------- C16-C1
+def _base(e):
+    while isinstance(e, ast.Subscript):
+        e = e.value
+    return e
+
+
+def _singular_container(ctx, F, e, at):
+    """is the container expression `e` the set of singular vertices the spanning-tree step uses?  True | None | (False, text)"""
+    k = F.table_key(e, at)
+    if k == "self.singularities":
+        return True
+    if isinstance(e, ast.Name):
+        d = F.definition(e.id, at)
+        if isinstance(d, ast.Call) and au.call_tail(d) in ("set", "frozenset", "list", "tuple") and len(d.args) == 1 and F.table_key(d.args[0], at) == "self.singularities":
+            return True
+        return None
+    if isinstance(e, ast.Attribute) and au.is_self_attr(e):
+        # another field: how does __init__ build it?
+        init = ctx.repo.func(CUT, f"{CLS}.__init__")
+        ps = set(au.params(init))
+        vals = [st.value for st in au.stmts(init.body) if isinstance(st, (ast.Assign, ast.AnnAssign)) and st.value is not None
+                and any(au.is_self_attr(t, e.attr) for t in au.assign_targets(st))]
+        if not vals:
+            return None
+        from_list = all(isinstance(v, ast.Call) and au.call_tail(v) in ("set", "frozenset") and len(v.args) == 1 and au.is_self_attr(v.args[0], "singularities") for v in vals)
+        if from_list:
+            return True
+        from_param = [v for v in vals if isinstance(v, ast.Call) and v.args and isinstance(v.args[0], ast.Name) and v.args[0].id in ps]
+        if from_param:
+            return (False, f"self.{e.attr} is built by __init__ from the raw argument (a second consumption of the iterable, and a snapshot that does not "
+                           "follow self.singularities), while the spanning tree is built from self.singularities")
+        return None
+    return None
 
 
 def c1_cut_graph(ctx):
-    fn = _fn(ctx, "_build_cut_edges_tree")
-    site = ctx.site(CUT, fn)
-    ev = au.params(fn, skip_self=True)[0]
-    ok = any(isinstance(st, ast.Assign) and au.is_self_attr(st.targets[0], "cut_edges")
-             and au.src(st.value).replace(" ", "") == f"set(self.input_mesh.id_edges)-{ev}" for st in fn.body)
-    ctx.check(ok, "C16-C1", site, "cut edges are not `all edges minus the edges crossed by the dual tree`", "", note="complement of the dual tree")
+    fn0, F = _flat(ctx, "_build_cut_edges_tree")
+    fn = F.fn
+    site = ctx.site(CUT, fn0)
+    R = "C16-C1"
+    ps = au.params(fn0, skip_self=True)
+    ev = ps[0] if ps else None
+    stores = [st for st in au.stmts(fn.body) if isinstance(st, (ast.Assign, ast.AnnAssign)) and st.value is not None
+              and any(au.is_self_attr(t, "cut_edges") for t in au.assign_targets(st))]
+    verdict = None
+    if len(stores) == 1 and ev:
+        v = F.b.resolve(stores[0].value, at=stores[0], keep=("self", ev))
+        dom = sub = None
+        if isinstance(v, ast.BinOp) and isinstance(v.op, ast.Sub):
+            dom, sub = v.left, v.right
+        elif isinstance(v, ast.Call) and isinstance(v.func, ast.Attribute) and v.func.attr == "difference" and len(v.args) == 1:
+            dom, sub = v.func.value, v.args[0]
+        elif isinstance(v, ast.SetComp) and len(v.generators) == 1 and len(v.generators[0].ifs) == 1 and isinstance(v.generators[0].target, ast.Name) \
+                and au.src(v.elt) == v.generators[0].target.id:
+            t = v.generators[0].ifs[0]
+            if au.canon_test(t) == f"{v.elt.id} not in {ev}":
+                dom, sub = v.generators[0].iter, ast.Name(id=ev, ctx=ast.Load())
+        if dom is not None:
+            d = dom.args[0] if isinstance(dom, ast.Call) and au.call_tail(dom) in ("set", "frozenset") and len(dom.args) == 1 else dom
+            dk = au.src(d)
+            sub_ok = isinstance(sub, ast.Name) and sub.id == ev or (isinstance(sub, ast.Call) and au.call_tail(sub) == "set" and au.src(sub.args[0]) == ev)
+            if dk in ("self.input_mesh.id_edges", "range(len(self.input_mesh.edges))") and sub_ok:
+                verdict = True
+            elif dk in ("self.input_mesh.interior_edges", "self.input_mesh.boundary_edges") and sub_ok:
+                verdict = "the complement is taken among the " + dk.rsplit(".", 1)[1].replace("_", " ") + " only: the original border must be part of the cut graph"
+    if verdict is True:
+        ctx.ok(R, site, "complement of the dual tree")
+    elif verdict is None:
+        ctx.undecided(R, site, "how self.cut_edges is computed from the dual-tree edges is not recognised", "")
+    else:
+        ctx.fail(R, site, "cut edges are not `all edges minus the edges crossed by the dual tree`", verdict)
+    # the adjacency: the dictionary stored in self.cut_adj (built in place, or in a local that is stored afterwards)
+    adj_keys = {"self.cut_adj"}
+    for st in au.stmts(fn.body):
+        if isinstance(st, (ast.Assign, ast.AnnAssign)) and st.value is not None and any(au.is_self_attr(t, "cut_adj") for t in au.assign_targets(st)):
+            if isinstance(st.value, ast.Name):
+                adj_keys.add(F.root(st.value.id, st))
+            elif isinstance(st.value, (ast.DictComp, ast.Call)):
+                # self.cut_adj = {v: adj[v] for v in ids} / dict(adj): the local table the adjacency is copied from
+                for n_ in ast.walk(st.value):
+                    if isinstance(n_, ast.Name) and n_.id in F.b.count and isinstance(F.definition(n_.id, st), ast.Call) \
+                            and au.call_tail(F.definition(n_.id, st)) in ("defaultdict", "dict"):
+                        adj_keys.add(F.root(n_.id, st))
+
+    def is_adj(e, at):
+        return F.table_key(e, at) in adj_keys or (isinstance(e, ast.Name) and F.root(e.id, at) in adj_keys)
     adds = []
     for c in au.calls(fn):
-        if au.call_tail(c) == "add" and isinstance(c.func.value, ast.Subscript) and au.is_self_attr(c.func.value.value, "cut_adj"):
-            adds.append((au.src(c.func.value.slice), au.src(c.args[0])))
-    ctx.check(len(adds) == 2 and adds[0] == adds[1][::-1] and adds[0][0] != adds[0][1], "C16-C1", site,
-              f"cut adjacency inserts {adds} are not the symmetric pair", "", note="cut_adj symmetric")
-    fn = _fn(ctx, "_prune_edge_tree")
-    site = ctx.site(CUT, fn)
-    # every enqueue is guarded by degree == 1 and not singular
-    apps = [c for c in au.calls(fn) if au.call_tail(c) == "append" and isinstance(c.func.value, ast.Name)]
-    okq = len(apps) >= 2
+        if au.call_tail(c) == "add" and isinstance(c.func.value, ast.Subscript) and is_adj(c.func.value.value, c) and len(c.args) == 1:
+            adds.append((au.src(c.func.value.slice), au.src(c.args[0]), c))
+    if len(adds) == 2 and adds[0][:2] == adds[1][:2][::-1] and adds[0][0] != adds[0][1]:
+        lps = [a for a in au.ancestors(adds[0][2]) if isinstance(a, ast.For)]
+        over = False
+        if lps:
+            it = lps[-1].iter
+            if F.table_key(it, lps[-1]) == "self.cut_edges":
+                over = True
+            elif isinstance(it, (ast.GeneratorExp, ast.ListComp)) and len(it.generators) == 1 and not it.generators[0].ifs \
+                    and F.table_key(it.generators[0].iter, lps[-1]) == "self.cut_edges" and isinstance(it.elt, ast.Subscript) \
+                    and F.table_key(it.elt.value, lps[-1]) == "self.input_mesh.edges" and au.src(it.elt.slice) == au.src(it.generators[0].target):
+                over = True
+        over = over and not F.conds(adds[0][2], stop=lps[-1]) and not F.conds(adds[1][2], stop=lps[-1])
+        if over:
+            ctx.ok(R, site, "cut_adj symmetric")
+        else:
+            ctx.undecided(R, site, "the loop filling the cut adjacency is not recognised", "")
+    elif len(adds) == 1 and len([a for a in au.ancestors(adds[0][2]) if isinstance(a, ast.For)]) == 1:
+        _absent(ctx, F, fn, R, site, "the cut adjacency is filled in one direction only", "cut_adj must be symmetric: pruning and the cut graph walk it from both ends")
+    else:
+        ctx.undecided(R, site, "the filling of the cut adjacency is not recognised", f"{len(adds)} insert(s)")
+    # ---- pruning
+    fn0, F = _flat(ctx, "_prune_edge_tree")
+    fn = F.fn
+    site = ctx.site(CUT, fn0)
+
+    def S(n):
+        return ctx.site(CUT, fn0, n)
+    qs = {t.id for st in au.stmts(fn.body) if isinstance(st, (ast.Assign, ast.AnnAssign)) and isinstance(st.value, ast.Call) and au.call_tail(st.value) in ("deque", "list")
+          and not st.value.args for t in au.assign_targets(st) if isinstance(t, ast.Name)}
+    qs |= {t.id for st in au.stmts(fn.body) if isinstance(st, ast.Assign) and isinstance(st.value, ast.List) and not st.value.elts for t in st.targets if isinstance(t, ast.Name)}
+    wl = [st for st in au.stmts(fn.body) if isinstance(st, ast.While) and qs & au.names(st)]
+    if len(wl) != 1:
+        ctx.undecided(R, site, "the work-list loop of the pruning is not recognised", "")
+        return
+    loop = wl[0]
+    Qs = [q for q in qs if any(isinstance(c.func, ast.Attribute) and isinstance(c.func.value, ast.Name) and c.func.value.id == q and c.func.attr in ("pop", "popleft")
+                              for c in au.calls(loop))]
+    if len(Qs) != 1:
+        ctx.undecided(R, site, "the work-list of the pruning is not recognised", "")
+        return
+    Q = Qs[0]
+    apps = [c for c in au.calls(fn) if isinstance(c.func, ast.Attribute) and c.func.attr in ("append", "appendleft", "add") and isinstance(c.func.value, ast.Name)
+            and c.func.value.id == Q and len(c.args) == 1]
+    if not apps:
+        ctx.undecided(R, site, "the pruning never enqueues a vertex", "")
     for c in apps:
-        x = au.src(c.args[0])
-        atoms = []
-        for t, pol in au.guards(c, stop=fn):
-            parts = t.values if isinstance(t, ast.BoolOp) and isinstance(t.op, ast.And) and pol else [t]
-            atoms += [au.canon_test(q, pol) for q in parts]
-        okq = okq and (f"{x} not in self.singularities" in atoms or f"{x} not in self.singu_set" in atoms) \
-            and any(a.startswith("1 == ") or a.endswith(" == 1") for a in atoms)
-    ctx.check(okq, "C16-C1", site, "a vertex is queued for pruning without the tests `cut degree == 1 and not singular`",
-              "pruning must stop at singular vertices: every singularity keeps a copy on the border of the cut mesh", note="only non-singular leaves pruned")
-    loops = [st for st in au.stmts(fn.body) if isinstance(st, ast.For) and isinstance(st.iter, ast.Subscript)
-             and au.is_self_attr(st.iter.value, "cut_adj")]
-    okr = False
-    if loops:
-        A = au.src(loops[0].iter.slice)
-        B = loops[0].target.id
-        rm_adj = any(au.call_tail(c) in ("remove", "discard") and au.src(c.func.value) == f"self.cut_adj[{B}]" and au.src(c.args[0]) == A
-                     for c in au.calls(loops[0]))
-        rm_edge = any(au.call_tail(c) in ("remove", "discard") and au.is_self_attr(c.func.value, "cut_edges") and isinstance(c.args[0], ast.Call)
-                      and au.call_tail(c.args[0]) == "edge_id" and {au.src(a) for a in c.args[0].args} == {A, B} for c in au.calls(loops[0]))
-        blk, _ = au.enclosing_block(loops[0])
-        clr = any(isinstance(s, ast.Assign) and au.src(s.targets[0]) == f"self.cut_adj[{A}]" and au.src(s.value) in ("set()",) for s in blk)
-        okr = rm_adj and rm_edge and clr
-    ctx.check(okr, "C16-C1", site, "removing a leaf does not update both adjacency sides, the cut-edge set and the leaf itself",
-              "the reported cut edges must be exactly the edges of the pruned cut graph", note="leaf removal keeps the three tables consistent")
+        x = c.args[0]
+        if not isinstance(x, ast.Name):
+            ctx.undecided(R, S(c), "the element queued for pruning is not a variable", "")
+            continue
+        xr = F.root(x.id, c)
+        deg = sing = None
+        other = False
+        for e, p in F.conds(c, stop=None if not F.inside(c, loop) else loop):
+            # degree: len(cut_adj[x]) == 1  (through locals)
+            if isinstance(e, ast.Compare) and len(e.ops) == 1 and isinstance(e.ops[0], ast.Eq):
+                sides = [F.resolve(e.left, c, keep=(x.id, xr)), F.resolve(e.comparators[0], c, keep=(x.id, xr))]
+                one = [s_ for s_ in sides if au.const(s_) == 1]
+                ln = [s_ for s_ in sides if isinstance(s_, ast.Call) and au.call_tail(s_) == "len" and len(s_.args) == 1]
+                if one and ln:
+                    a = ln[0].args[0]
+                    if isinstance(a, ast.Name):
+                        d_ = F.definition(a.id, c)
+                        a = d_ if d_ is not None else a
+                    if isinstance(a, ast.Subscript) and F.table_key(a.value, c) == "self.cut_adj" and isinstance(a.slice, ast.Name):
+                        deg = (F.root(a.slice.id, c) == xr, p)
+                        continue
+            if isinstance(e, ast.Compare) and len(e.ops) == 1 and isinstance(e.ops[0], ast.In) and isinstance(e.left, ast.Name):
+                sc = _singular_container(ctx, F, e.comparators[0], c)
+                if sc is not None:
+                    sing = (F.root(e.left.id, c) == xr, p, sc)
+                    continue
+            if isinstance(e, ast.Compare) and len(e.ops) == 1 and isinstance(e.ops[0], ast.In) and "singu" in au.src(e.comparators[0]):
+                sing = (isinstance(e.left, ast.Name) and F.root(e.left.id, c) == xr, p, None)
+                continue
+            other = True
+        if (deg is None or sing is None) and other:
+            ctx.undecided(R, S(c), "the conditions under which a vertex is queued for pruning are not recognised", "")
+            continue
+        why = "pruning must stop at singular vertices: every singularity keeps a copy on the border of the cut mesh"
+        if sing is None:
+            _absent(ctx, F, fn, R, S(c), "a vertex is queued for pruning without the tests `cut degree == 1 and not singular`", why + " (no test against the singular vertices)")
+        elif not sing[0]:
+            ctx.fail(R, S(c), "a vertex is queued for pruning without the tests `cut degree == 1 and not singular`", why + " (the singularity test is made on another vertex)")
+        elif sing[1]:
+            ctx.fail(R, S(c), "a vertex is queued for pruning without the tests `cut degree == 1 and not singular`", why + " (the test is inverted)")
+        elif isinstance(sing[2], tuple):
+            ctx.fail(R, S(c), "the pruning tests membership in a container that is not the list of singular vertices the spanning tree was built from",
+                     sing[2][1])
+        elif sing[2] is None:
+            ctx.undecided(R, S(c), "the container the pruning tests for singular vertices is not recognised", "")
+        elif deg is None:
+            _absent(ctx, F, fn, R, S(c), "a vertex is queued for pruning without the tests `cut degree == 1 and not singular`", "only leaves of the cut graph may be pruned (no degree test)")
+        elif not deg[0] or not deg[1]:
+            ctx.fail(R, S(c), "a vertex is queued for pruning without the tests `cut degree == 1 and not singular`", "the degree test is not `len(cut_adj[x]) == 1` on the queued vertex")
+        else:
+            ctx.ok(R, S(c), "only non-singular leaves pruned")
+    loops = [st for st in au.stmts(loop.body) if isinstance(st, ast.For) and isinstance(st.target, ast.Name)]
+    nb_loops = []
+    for st in loops:
+        it = st.iter
+        if isinstance(it, ast.Call) and au.call_tail(it) in ("list", "tuple", "set", "sorted") and len(it.args) == 1:
+            it = it.args[0]
+        if isinstance(it, ast.Name):
+            d_ = F.definition(it.id, st)
+            it = d_ if d_ is not None else it
+            if isinstance(it, ast.Call) and au.call_tail(it) in ("list", "tuple", "set", "sorted") and len(it.args) == 1:
+                it = it.args[0]
+        if isinstance(it, ast.Subscript) and F.table_key(it.value, st) == "self.cut_adj" and isinstance(it.slice, ast.Name):
+            nb_loops.append((st, it.slice.id))
+    if len(nb_loops) != 1:
+        ctx.undecided(R, S(loop), "the loop over the cut neighbours of a pruned leaf is not recognised", "")
+        return
+    nl, A = nb_loops[0]
+    B = nl.target.id
+
+    def adj_of(e, who, at):
+        if isinstance(e, ast.Name):
+            d_ = F.definition(e.id, at)
+            e = d_ if d_ is not None else e
+        return isinstance(e, ast.Subscript) and F.table_key(e.value, at) == "self.cut_adj" and isinstance(e.slice, ast.Name) and F.root(e.slice.id, at) == who
+    rm_adj = [c for c in au.calls(nl) if au.call_tail(c) in ("remove", "discard") and isinstance(c.func, ast.Attribute) and adj_of(c.func.value, B, c)
+              and len(c.args) == 1 and isinstance(c.args[0], ast.Name) and F.root(c.args[0].id, c) == F.root(A, c) and not F.conds(c, stop=nl)]
+    rm_edge = []
+    for c in au.calls(nl):
+        if au.call_tail(c) in ("remove", "discard") and isinstance(c.func, ast.Attribute) and F.table_key(c.func.value, c) == "self.cut_edges" and len(c.args) == 1:
+            k = F.resolve(c.args[0], c, keep=(A, B))
+            if isinstance(k, ast.Call) and au.call_tail(k) == "edge_id" and {au.src(a) for a in k.args} == {A, B} and not F.conds(c, stop=nl):
+                rm_edge.append(c)
+    blk_after = [st for st in au.stmts(loop.body) if not F.inside(st, nl) and st is not nl]
+    clr = False
+    for st in blk_after:
+        if isinstance(st, ast.Assign) and len(st.targets) == 1 and adj_of(st.targets[0], A, st) and \
+                (isinstance(st.value, ast.Call) and au.call_tail(st.value) == "set" and not st.value.args):
+            clr = True
+        if isinstance(st, ast.Expr) and isinstance(st.value, ast.Call) and au.call_tail(st.value) == "clear" and adj_of(st.value.func.value, A, st):
+            clr = True
+    for c in au.calls(nl):
+        if au.call_tail(c) in ("remove", "discard") and isinstance(c.func, ast.Attribute) and adj_of(c.func.value, A, c) and len(c.args) == 1 \
+                and isinstance(c.args[0], ast.Name) and F.root(c.args[0].id, c) == B:
+            clr = True
+    for st in blk_after:
+        if isinstance(st, ast.Delete) and any(adj_of(t, A, st) for t in st.targets):
+            clr = True
+        if isinstance(st, ast.Expr) and isinstance(st.value, ast.Call) and au.call_tail(st.value) == "pop" and F.table_key(st.value.func.value, st) == "self.cut_adj":
+            clr = True
+    known = {id(x) for x in rm_adj + rm_edge}
+    strange = [c for c in au.calls(loop) if isinstance(c.func, ast.Attribute) and c.func.attr in MUTATORS and id(c) not in known
+               and ("cut_adj" in F.table_key(_base(c.func.value), c) or "cut_edges" in F.table_key(_base(c.func.value), c))
+               and not (isinstance(c.func.value, ast.Name) and c.func.value.id == Q)]
+    if rm_adj and rm_edge and clr:
+        ctx.ok(R, site, "leaf removal keeps the three tables consistent")
+    elif F.impure_self_calls(loop) or F.opaque(loop, {A, B}) or strange:
+        ctx.undecided(R, site, "the removal of a pruned leaf is not fully visible", "")
+    else:
+        miss = [t for t, ok_ in (("the neighbour's adjacency", rm_adj), ("the cut-edge set", rm_edge), ("the leaf's own adjacency", clr)) if not ok_]
+        ctx.fail(R, site, "removing a leaf does not update both adjacency sides, the cut-edge set and the leaf itself",
+                 "the reported cut edges must be exactly the edges of the pruned cut graph; not updated: " + ", ".join(miss))
 
 
 # =============================================================================================== spanning trees (C16-K1 / K2)
-def _dom(node, stop=None):
-    return au.guards(node, stop=stop)
-
-
-def _consecutive_pairs(loop, b):
-    """Does `loop` enumerate every consecutive pair of one sequence P?  Returns (P source, names of the pair) or None.
+def _consecutive_pairs(F, loop):
+    """Does `loop` enumerate every consecutive pair of one sequence P?  Returns the AST of P or None.
     Accepted idioms: for i in range(1, len(P)): x, y = P[i-1], P[i]      for i in range(len(P) - 1): x, y = P[i], P[i+1]
-                     for x, y in zip(P, P[1:]) / zip(P[:-1], P[1:]) / consecutive_pairs(P)"""
+                     for x, y in zip(P, P[1:]) / zip(P[:-1], P[1:]) / pairwise(P)
+    returns ('bad', text) when the loop visits consecutive pairs but not all of them"""
     it = loop.iter
     if isinstance(it, ast.Call) and au.call_tail(it) == "zip" and len(it.args) == 2:
         a0, a1 = it.args
-        if isinstance(a1, ast.Subscript) and isinstance(a1.slice, ast.Slice) and au.const(a1.slice.lower) == 1 and a1.slice.upper is None:
-            P = au.src(a1.value)
-            if au.src(a0) == P or (isinstance(a0, ast.Subscript) and isinstance(a0.slice, ast.Slice) and a0.slice.lower is None
-                                   and au.const(a0.slice.upper) == -1 and au.src(a0.value) == P):
+        if isinstance(a1, ast.Subscript) and isinstance(a1.slice, ast.Slice) and au.const(a1.slice.lower) == 1 and a1.slice.upper is None and a1.slice.step is None:
+            P = a1.value
+            if hr.same(a0, P) or (isinstance(a0, ast.Subscript) and isinstance(a0.slice, ast.Slice) and a0.slice.lower is None
+                                  and au.const(a0.slice.upper) == -1 and hr.same(a0.value, P)):
                 return P
         return None
-    if isinstance(it, ast.Call) and au.call_tail(it) in ("consecutive_pairs",) and len(it.args) == 1:
-        return au.src(it.args[0])
+    if isinstance(it, ast.Call) and au.call_tail(it) in ("consecutive_pairs", "pairwise") and len(it.args) == 1:
+        return it.args[0]
     if not (isinstance(it, ast.Call) and au.call_tail(it) == "range" and isinstance(loop.target, ast.Name)):
         return None
     i = loop.target.id
-    lo = sym.Poly.const(0) if len(it.args) == 1 else sym.to_poly(it.args[0])
-    hi = it.args[0] if len(it.args) == 1 else it.args[1]
     if len(it.args) > 2:
         return None
-    hip = sym.to_poly(hi)
-    lens = [a for a in hip.atoms() if str(a).strip("\u27e8\u27e9").startswith("len(")]
-    if len(lens) != 1 or hip.coeff(lens[0]) != sym.Poly.const(1):
+    lo = sym.Poly.const(0) if len(it.args) == 1 else sym.to_poly(it.args[0])
+    hi = it.args[0] if len(it.args) == 1 else it.args[1]
+    lens = [n for n in ast.walk(hi) if isinstance(n, ast.Call) and au.call_tail(n) == "len" and len(n.args) == 1]
+    if len(lens) != 1:
         return None
-    P = str(lens[0]).strip("\u27e8\u27e9")[4:-1]
-    hi_off = hip.without(lens[0])
+    P = lens[0].args[0]
+    hip = sym.to_poly(hi, atom_of=lambda e: "LEN" if e is lens[0] else None)
+    if hip.coeff("LEN") != sym.Poly.const(1):
+        return None
+    hi_off = hip.without("LEN")
     if not (lo.is_const() and hi_off.is_const()):
         return None
     lo_c, hi_c = lo.const_value(), hi_off.const_value()
-    # index offsets used on P inside the loop
     offs = set()
     for n in au.walk(loop):
-        if isinstance(n, ast.Subscript) and au.src(n.value) == P and not isinstance(n.slice, ast.Slice):
+        if isinstance(n, ast.Subscript) and hr.same(n.value, P) and not isinstance(n.slice, ast.Slice):
             p = sym.to_poly(n.slice)
             if p.coeff(i) != sym.Poly.const(1) or not p.without(i).is_const():
                 return None
@@ -368,176 +1159,414 @@ def _consecutive_pairs(loop, b):
     if len(offs) != 2 or max(offs) - min(offs) != 1:
         return None
     # first pair is (P[0], P[1]), last pair is (P[len-2], P[len-1])
-    if lo_c + min(offs) == 0 and hi_c - 1 + max(offs) == -1:
+    first, last = lo_c + min(offs), hi_c - 1 + max(offs)
+    if first == 0 and last == -1:
         return P
+    if first >= 0 and last <= -1:
+        return ("bad", ("the first" if first > 0 else "the last") + " pair of the path is skipped")
+    return None
+
+
+def _class_constants(ctx):
+    cls = ctx.repo.cls(CUT, CLS)
+    out = {}
+    for st in cls.body:
+        if isinstance(st, (ast.Assign, ast.AnnAssign)) and st.value is not None:
+            for t in au.assign_targets(st):
+                if isinstance(t, ast.Name):
+                    out[t.id] = st.value
+    return out
+
+
+def _is_sentinel(ctx, F, e, at):
+    """e denotes a negative integer constant: a local bound once, a class constant read through self / the class, a module constant"""
+    def neg(v):
+        c = au.const(v)
+        return isinstance(c, int) and not isinstance(c, bool) and c < 0
+    if neg(e):
+        return True
+    if isinstance(e, ast.Name):
+        d = F.definition(e.id, at)
+        if d is not None:
+            return neg(d) or _is_sentinel(ctx, F, d, at) if not isinstance(d, ast.Name) else False
+        mod = ctx.repo.module(CUT)
+        for st in mod.tree.body:
+            if isinstance(st, ast.Assign) and any(isinstance(t, ast.Name) and t.id == e.id for t in st.targets):
+                return neg(st.value)
+        return False
+    if isinstance(e, ast.Attribute) and isinstance(e.value, ast.Name) and e.value.id in ("self", "cls", CLS):
+        cc = _class_constants(ctx)
+        return e.attr in cc and neg(cc[e.attr])
+    return False
+
+
+def _weigh_conds(tests, atoms):
+    """conditions under which a candidate is weighed: True (none, or only `a != b` on the two end points) | 'cond' (a test on the
+    length of the path: the zero-length link to the border is dropped) | None (unknown)"""
+    rest = [(e, p) for e, p in atoms if not (isinstance(e, ast.Compare) and len(e.ops) == 1 and isinstance(e.ops[0], ast.Eq) and not p
+                                             and isinstance(e.left, ast.Name) and isinstance(e.comparators[0], ast.Name))]
+    if not rest:
+        return True
+    if all(any(isinstance(n, ast.Call) and au.call_tail(n) == "len" for n in ast.walk(e)) for e, p in rest):
+        return "cond"
     return None
 
 
 def k1_spanning_tree_no_features(ctx):
-    fn = _fn(ctx, "_build_singularity_spanning_tree_no_features")
-    site = ctx.site(CUT, fn)
-    b = sym.Bindings(fn)
+    fn0, F = _flat(ctx, "_build_singularity_spanning_tree_no_features")
+    fn = F.fn
+    site = ctx.site(CUT, fn0)
+    b = F.b
     R = "C16-K1"
+
+    def S(n):
+        return ctx.site(CUT, fn0, n)
     why_tree = ("the selected paths must join every singular vertex (and the border, when there is one) into one tree: a singular vertex "
                 "that is left out has no copy on the border of the cut mesh")
     # --- union-find over the singular vertices plus the border sentinel
-    ufs = [(st, t.id) for st in au.stmts(fn.body) if isinstance(st, ast.Assign) and isinstance(st.value, ast.Call)
-           and au.call_tail(st.value) == "UnionFind" for t in st.targets if isinstance(t, ast.Name)]
+    ufs = [(st, t.id) for st in au.stmts(fn.body) if isinstance(st, (ast.Assign, ast.AnnAssign)) and isinstance(st.value, ast.Call)
+           and au.call_tail(st.value) == "UnionFind" for t in au.assign_targets(st) if isinstance(t, ast.Name)]
     if len(ufs) != 1:
-        ctx.fail(R, site, "the union-find of Kruskal's algorithm over the singular vertices was not found", why_tree)
+        ctx.undecided(R, site, "the union-find of Kruskal's algorithm over the singular vertices was not recognised", "")
         return
     ufst, uf = ufs[0]
-    sentinels = [t.id for st in fn.body if isinstance(st, ast.Assign) and isinstance(au.const(st.value), int) and au.const(st.value) < 0
-                 for t in st.targets if isinstance(t, ast.Name)]
-    dom = b.resolve(ufst.value.args[0], at=ufst, keep=tuple(sentinels)) if ufst.value.args else None
-    txt = au.src(dom) if dom is not None else ""
-    ok = "self.singularities" in txt and any(s in au.names(dom) for s in sentinels) if dom is not None else False
-    ctx.check(ok, R, ctx.site(CUT, fn, ufst), f"the union-find ranges over `{txt[:80]}`, not over the singular vertices plus the border sentinel",
-              why_tree, note="union-find over singularities + BORDER")
-    # --- candidates: dict filled for every pair and for (BORDER, a)
+    if ufst.value.args:
+        dom = ufst.value.args[0]
+        # resolve local names but keep what they are made of visible
+        domr = F.resolve(dom, ufst, keep=("self",))
+        if isinstance(domr, ast.Name):
+            d_ = F.definition(domr.id, ufst)
+            domr = d_ if d_ is not None else domr
+        has_sing = any(F.table_key(n, ufst) == "self.singularities" for n in ast.walk(domr) if isinstance(n, (ast.Attribute, ast.Name)))
+        has_sent = any(_is_sentinel(ctx, F, n, ufst) for n in ast.walk(domr) if isinstance(n, (ast.Name, ast.Attribute, ast.UnaryOp, ast.Constant)))
+        if has_sing and has_sent:
+            ctx.ok(R, S(ufst), "union-find over singularities + BORDER")
+        elif has_sing and not has_sent and au.is_self_attr(domr, "singularities"):
+            ctx.fail(R, S(ufst), "the union-find ranges over the singular vertices without the border sentinel", why_tree)
+        else:
+            ctx.undecided(R, S(ufst), "the domain of the union-find of Kruskal's algorithm is not recognised", "")
+    else:
+        ctx.ok(R, S(ufst), "union-find filled by union")
+    # --- candidates: a dict filled for every pair and for (BORDER, a) inside a loop over the singular vertices
     cand = {}
-    for st in au.stmts(fn.body):
-        if isinstance(st, ast.Assign) and isinstance(st.targets[0], ast.Subscript) and isinstance(st.targets[0].value, ast.Name) \
-                and isinstance(st.value, (ast.Call, ast.Subscript)):
-            loops = [a for a in au.ancestors(st) if isinstance(a, ast.For)]
-            if loops and "self.singularities" in au.src(loops[-1].iter):
-                cand.setdefault(st.targets[0].value.id, []).append((st, loops))
+    for st, tg, val in hr.item_stores(fn):
+        if not isinstance(tg.value, ast.Name) or val is None:
+            continue
+        loops = [a for a in au.ancestors(st) if isinstance(a, ast.For)]
+        if loops and any(F.table_key(n, loops[-1]) == "self.singularities" for n in ast.walk(loops[-1].iter) if isinstance(n, (ast.Attribute, ast.Name))):
+            cand.setdefault(F.root(tg.value.id, st), []).append((st, tg, val, loops))
     cands = [k for k, v in cand.items() if len(v) >= 2]
     if len(cands) != 1:
-        ctx.fail(R, site, "the table of candidate paths (singularity to singularity, singularity to border) was not found", why_tree)
+        ctx.undecided(R, site, "the table of candidate paths (singularity to singularity, singularity to border) was not recognised", "")
         return
     D = cands[0]
     n_border = n_pair = 0
-    for st, loops in cand[D]:
+    for st, tg, val, loops in cand[D]:
         outer = loops[-1]
-        gs = _dom(st, stop=outer)
-        if isinstance(st.value, ast.Call) and au.call_tail(st.value) == "shortest_path_to_border":
+        conds = F.conds(st, stop=outer)
+        vr = F.resolve(val, st, keep=("self",))
+        if isinstance(vr, ast.Call) and au.call_tail(vr) == "shortest_path_to_border":
             n_border += 1
-            bad = [au.src(t) for t, pol in gs if not (isinstance(t, ast.Name) and pol and "boundary" in au.src(b.resolve(t, at=st)))]
-            key = st.targets[0].slice
-            okk = isinstance(key, ast.Tuple) and len(key.elts) == 2 and any(isinstance(e, ast.Name) and e.id in sentinels for e in key.elts)
-            ctx.check(not bad and okk, R, ctx.site(CUT, fn, st),
-                      f"the path from a singular vertex to the border is recorded only under {bad or 'an unexpected key'}",
-                      "every singular vertex needs its candidate link to the border whenever the mesh has one (a zero-length link included)",
-                      note="(BORDER, a) candidate for every singularity")
+            bad = []
+            for e, p in conds:
+                er = F.resolve(e, st, keep=("self",))
+                if p and "boundary" in au.src(er) and not any(isinstance(n, ast.Call) and au.call_tail(n) in ("is_vertex_on_border",) for n in ast.walk(er)):
+                    continue
+                bad.append((e, p))
+            key = tg.slice
+            okk = isinstance(key, ast.Tuple) and len(key.elts) == 2 and any(_is_sentinel(ctx, F, e, st) for e in key.elts)
+            if not bad and okk:
+                ctx.ok(R, S(st), "(BORDER, a) candidate for every singularity")
+            elif bad:
+                ctx.fail(R, S(st), "the path from a singular vertex to the border is recorded only under an extra condition",
+                         "every singular vertex needs its candidate link to the border whenever the mesh has one (a zero-length link included)")
+            else:
+                ctx.undecided(R, S(st), "the key of the border candidate is not recognised", "")
         else:
             n_pair += 1
-            ctx.check(not gs, R, ctx.site(CUT, fn, st), f"a candidate path between two singular vertices is recorded only under {[au.src(t) for t, _ in gs]}",
-                      why_tree, note="pair candidates recorded unconditionally")
-    ctx.check(n_border == 1 and n_pair >= 1, R, site, "candidate links singularity-border / singularity-singularity are not both recorded", why_tree)
+            conds = [(e, p) for e, p in conds if not (isinstance(e, ast.Compare) and len(e.ops) == 1 and isinstance(e.ops[0], ast.Eq) and not p
+                                                      and isinstance(e.left, ast.Name) and isinstance(e.comparators[0], ast.Name))]
+            if conds and all(isinstance(e, ast.Compare) and any(isinstance(n, ast.Call) and au.call_tail(n) == "len" for n in ast.walk(e)) for e, p in conds):
+                ctx.fail(R, S(st), "a candidate path between two singular vertices is recorded only under a condition on its length", why_tree)
+            elif conds:
+                ctx.undecided(R, S(st), "a candidate path between two singular vertices is recorded under a condition the rule does not recognise", "")
+            elif False:
+                ctx.fail(R, S(st), "a candidate path between two singular vertices is recorded only under a condition", why_tree)
+            else:
+                ctx.ok(R, S(st), "pair candidates recorded unconditionally")
+    if not (n_border == 1 and n_pair >= 1):
+        ctx.undecided(R, site, "candidate links singularity-border / singularity-singularity are not both recognised", "")
     # shortest_path targets cover the remaining singular vertices
     for c in au.calls(fn):
         if au.call_tail(c) == "shortest_path" and len(c.args) >= 3:
-            t = au.src(b.resolve(c.args[2], at=au.enclosing_stmt(c)))
-            ctx.check("self.singularities" in t and "[i+1:]" not in t.replace(" ", "") or "self.singu_set" in t, R, ctx.site(CUT, fn, c),
-                      f"pair candidates are computed towards `{t[:60]}` only", why_tree, note="targets = the remaining singular vertices")
-    # --- every candidate enters the sorted list, unconditionally
-    apps = []
+            t = F.b.resolve(c.args[2], at=au.enclosing_stmt(c), keep=("self",))
+            sl = [n for n in ast.walk(t) if isinstance(n, ast.Subscript) and isinstance(n.slice, ast.Slice) and au.is_self_attr(n.value, "singularities")]
+            whole = any(au.is_self_attr(n, "singularities") or au.is_self_attr(n, "singu_set") for n in ast.walk(t)) and not sl
+            if whole:
+                ctx.ok(R, S(c), "targets = the singular vertices")
+            elif sl:
+                lo = sl[0].slice.lower
+                enum = [a for a in au.ancestors(c) if isinstance(a, ast.For) and isinstance(a.iter, ast.Call) and au.call_tail(a.iter) == "enumerate"]
+                iname = enum[0].target.elts[0].id if enum and isinstance(enum[0].target, ast.Tuple) else None
+                if sl[0].slice.upper is None and lo is not None and iname and au.src(lo) == iname:
+                    ctx.ok(R, S(c), "targets = the remaining singular vertices")
+                elif sl[0].slice.upper is None and lo is not None and iname and au.src(lo).replace(" ", "") == iname + "+1":
+                    ctx.ok(R, S(c), "targets = the remaining singular vertices")
+                else:
+                    ctx.undecided(R, S(c), "the targets of the pair candidates are a slice the rule does not recognise", "")
+            else:
+                ctx.undecided(R, S(c), "the targets of the pair candidates are not recognised", "")
+    # --- every candidate enters the weighed list, unconditionally; the list is sorted ascending
+    L = None
+    weighed = None          # True / 'cond' / None
+    sorted_ok = None
+    # (a) append loop over D
     for c in au.calls(fn):
         if au.call_tail(c) == "append" and isinstance(c.func.value, ast.Name) and c.args and isinstance(c.args[0], ast.Tuple):
             loops = [a for a in au.ancestors(c) if isinstance(a, ast.For)]
-            if loops and au.src(loops[0].iter).split(".")[0].split("(")[-1].strip() in (D,) or (loops and D in au.names(loops[0].iter)):
-                apps.append((c, loops[0]))
-    if len(apps) != 1:
-        ctx.fail(R, site, "the list of (length, candidate) pairs built from every candidate path was not found", why_tree)
+            if loops and any(isinstance(n, ast.Name) and F.root(n.id, loops[0]) == D for n in ast.walk(loops[0].iter)):
+                L = c.func.value.id
+                weighed = _weigh_conds([e for e, p_ in F.conds(c, stop=loops[0])], [(e, p_) for e, p_ in F.conds(c, stop=loops[0])])
+                wl_node = c
+    # (b) comprehension over D
+    if L is None:
+        for st in au.stmts(fn.body):
+            for nm, v in sym.split_assign(st):
+                comp = v
+                srt = False
+                if isinstance(comp, ast.Call) and au.call_tail(comp) in ("sorted", "list") and len(comp.args) == 1:
+                    srt = au.call_tail(comp) == "sorted" and not any(k.arg == "reverse" and au.const(k.value) is not False for k in comp.keywords) \
+                        and not any(k.arg == "key" for k in comp.keywords)
+                    comp = comp.args[0]
+                if isinstance(comp, (ast.ListComp, ast.GeneratorExp)) and len(comp.generators) == 1 and isinstance(comp.elt, ast.Tuple) \
+                        and any(isinstance(n, ast.Name) and F.root(n.id, st) == D for n in ast.walk(comp.generators[0].iter)):
+                    L = nm
+                    weighed = _weigh_conds(list(comp.generators[0].ifs), sk.atoms([(t_, True) for t_ in comp.generators[0].ifs]))
+                    wl_node = st
+                    if srt:
+                        sorted_ok = True
+    if L is None:
+        ctx.undecided(R, site, "the list of (length, candidate) pairs built from every candidate path was not recognised", "")
         return
-    app, lp = apps[0]
-    L = app.func.value.id
-    gs = _dom(app, stop=lp)
-    ctx.check(not gs, R, ctx.site(CUT, fn, app), f"a candidate path enters Kruskal's list only under {[au.src(t) for t, _ in gs]}",
-              "a candidate that is filtered out (e.g. the zero-length link of a singular vertex lying on the border) leaves its end points "
-              "to be joined through a longer path or not at all", note="every candidate is weighed")
-    # sorted ascending before the selection loop
-    sel_loops = [st for st in fn.body if isinstance(st, ast.For) and L in au.names(st.iter)
+    if weighed is True:
+        ctx.ok(R, S(wl_node), "every candidate is weighed")
+    elif weighed is None:
+        ctx.undecided(R, S(wl_node), "a candidate path enters Kruskal's list under a condition the rule does not recognise", "")
+    else:
+        ctx.fail(R, S(wl_node), "a candidate path enters Kruskal's list only under a condition on its length",
+                 "a candidate that is filtered out (e.g. the zero-length link of a singular vertex lying on the border) leaves its end points "
+                 "to be joined through a longer path or not at all")
+    # selection loop
+    sel_loops = [st for st in au.stmts(fn.body) if isinstance(st, ast.For) and any(isinstance(n, ast.Name) and F.root(n.id, st) == F.root(L, st) for n in ast.walk(st.iter))
                  and any(au.call_tail(c) == "union" for c in au.calls(st))]
     if len(sel_loops) != 1:
-        ctx.fail(R, site, "Kruskal's selection loop over the weighed candidates was not found", why_tree)
+        ctx.undecided(R, site, "Kruskal's selection loop over the weighed candidates was not recognised", "")
         return
     sel = sel_loops[0]
-    sorted_ok = any(isinstance(st, ast.Expr) and isinstance(st.value, ast.Call) and au.call_tail(st.value) == "sort"
-                    and au.src(st.value.func.value) == L and not st.value.keywords and st.lineno < sel.lineno and st.lineno > lp.lineno
-                    for st in fn.body) or (isinstance(sel.iter, ast.Call) and au.call_tail(sel.iter) == "sorted" and not sel.iter.keywords)
-    ctx.check(sorted_ok, R, ctx.site(CUT, fn, sel), "the candidates are not sorted by increasing length before the selection", 
-              "Kruskal on unsorted candidates still spans but the cut is no longer the minimal one the cutter documents", note="sorted ascending")
-    # selection: append + union in the block guarded by not connected
-    unions = [c for c in au.calls(sel) if au.call_tail(c) == "union" and au.src(c.func.value) == uf]
-    okb = False
+    if sorted_ok is None:
+        if isinstance(sel.iter, ast.Call) and au.call_tail(sel.iter) == "sorted" and not sel.iter.keywords:
+            sorted_ok = True
+        else:
+            sorts = [c for c in au.calls(fn) if au.call_tail(c) == "sort" and isinstance(c.func, ast.Attribute) and isinstance(c.func.value, ast.Name)
+                     and F.root(c.func.value.id, c) == F.root(L, c) and F.before(c, sel) and F.before(wl_node, c)]
+            if len(sorts) == 1 and not sorts[0].keywords and F.unconditional(sorts[0], sel):
+                sorted_ok = True
+            elif len(sorts) == 1 and any(k.arg == "reverse" and au.const(k.value) is True for k in sorts[0].keywords):
+                sorted_ok = False
+            elif not sorts and not F.opaque(fn, {L}):
+                d_ = F.definition(L, sel)
+                sortish = [c for c in au.calls(fn) if "sort" in (au.call_tail(c) or "") or (au.call_tail(c) or "").startswith("heap")]
+                if isinstance(d_, ast.Call) and au.call_tail(d_) == "sorted":
+                    sorted_ok = True
+                elif not sortish:
+                    sorted_ok = False
+    if sorted_ok is True:
+        ctx.ok(R, S(sel), "sorted ascending")
+    elif sorted_ok is False:
+        ctx.fail(R, S(sel), "the candidates are not sorted by increasing length before the selection",
+                 "Kruskal on unsorted candidates still spans but the cut is no longer the minimal one the cutter documents")
+    else:
+        ctx.undecided(R, S(sel), "the sort of the weighed candidates is not recognised", "")
+    # selection: record + union under `not connected`
+    unions = [c for c in au.calls(sel) if au.call_tail(c) == "union" and isinstance(c.func.value, ast.Name) and c.func.value.id == uf and len(c.args) == 2]
+    selected = None
     if len(unions) == 1:
         u = unions[0]
-        gs = _dom(u, stop=sel)
-        okg = len(gs) == 1 and isinstance(gs[0][0], ast.Call) and au.call_tail(gs[0][0]) == "connected" and gs[0][1] is False \
-            and {au.src(a) for a in gs[0][0].args} == {au.src(a) for a in u.args}
-        blk, _ = au.enclosing_block(au.enclosing_stmt(u))
-        rec = [c for s in blk for c in au.calls(s) if au.call_tail(c) == "append"]
-        okb = okg and len(rec) == 1
-        selected = au.src(rec[0].func.value) if rec else None
-    ctx.check(okb, R, ctx.site(CUT, fn, sel), "a candidate is not selected exactly when its end points are not yet connected (record + union in one block)",
-              why_tree, note="selected iff not connected; union with the record")
-    if not okb:
+        conds = F.conds(u, stop=sel)
+        def as_connected(e):
+            """uf.connected(a, b) / uf.find(a) == uf.find(b) -> the pair of arguments, else None"""
+            if isinstance(e, ast.Call) and au.call_tail(e) == "connected":
+                return e
+            if isinstance(e, ast.Compare) and len(e.ops) == 1 and isinstance(e.ops[0], ast.Eq):
+                sides = [e.left, e.comparators[0]]
+                if all(isinstance(x, ast.Call) and au.call_tail(x) == "find" and len(x.args) == 1 for x in sides):
+                    return ast.Call(func=ast.Name(id="connected", ctx=ast.Load()), args=[x.args[0] for x in sides], keywords=[])
+            return None
+        g = [(as_connected(e), p) for e, p in conds if as_connected(e) is not None]
+        rest = [(e, p) for e, p in conds if as_connected(e) is None]
+        same_pair = g and {au.src(a) for a in g[0][0].args} == {au.src(a) for a in u.args}
+        ukey = {(hr.key(e), p) for e, p in conds}
+        recs = [c for c in au.calls(sel) if au.call_tail(c) in ("append", "add") and isinstance(c.func.value, ast.Name) and len(c.args) == 1]
+        if len(g) == 1 and same_pair and not g[0][1] and not rest:
+            same = [c for c in recs if {(hr.key(e), p) for e, p in F.conds(c, stop=sel)} == ukey]
+            if len(recs) == 1 and len(same) == 1:
+                ctx.ok(R, S(sel), "selected iff not connected; union with the record")
+                selected = recs[0].func.value.id
+            elif len(recs) == 1:
+                ctx.fail(R, S(sel), "a candidate is not selected exactly when its end points are not yet connected (record + union under one test)",
+                         "the record of the selected candidate and the union are not executed under the same test")
+            else:
+                ctx.undecided(R, S(sel), "the record of the selected candidates is not recognised", "")
+        elif len(g) == 1 and same_pair and g[0][1] and not rest:
+            ctx.fail(R, S(sel), "a candidate is not selected exactly when its end points are not yet connected (record + union under one test)",
+                     "the test is inverted: only candidates that close a cycle are selected")
+        elif not conds:
+            r_conds = [F.conds(c, stop=sel) for c in recs]
+            if len(recs) == 1 and r_conds[0]:
+                ctx.fail(R, S(sel), "a candidate is not selected exactly when its end points are not yet connected (record + union under one test)",
+                         "the union is executed for every candidate, outside the test that guards the record")
+            else:
+                ctx.undecided(R, S(sel), "Kruskal's selection is not recognised", "")
+        else:
+            ctx.undecided(R, S(sel), "the guard of Kruskal's union is not recognised", "")
+    else:
+        ctx.undecided(R, S(sel), "Kruskal's union call is not recognised", f"{len(unions)} union call(s)")
+    if selected is None:
         return
     # --- flagging: every consecutive pair of every selected path
-    flag_loops = [st for st in fn.body if isinstance(st, ast.For) and au.src(st.iter) == selected]
-    okf = False
+    flag_loops = [st for st in au.stmts(fn.body) if isinstance(st, ast.For) and F.before(sel, st) and not F.inside(st, sel)
+                  and any(isinstance(n, ast.Name) and F.root(n.id, st) == F.root(selected, st) for n in ast.walk(st.iter))]
+    flag_loops = [l for l in flag_loops if not any(l is not o and F.inside(l, o) for o in flag_loops)]
+    verdict = None
     if len(flag_loops) == 1:
-        inner = [s for s in au.stmts(flag_loops[0].body) if isinstance(s, ast.For)]
+        fl = flag_loops[0]
+        inner = [s for s in au.stmts(fl.body) if isinstance(s, ast.For)]
         if len(inner) == 1:
-            P = _consecutive_pairs(inner[0], b)
-            stores = [s for s in au.stmts(inner[0].body) if isinstance(s, ast.Assign) and isinstance(s.targets[0], ast.Subscript)
-                      and au.const(s.value) is True]
-            if P is not None and len(stores) == 1 and not _dom(stores[0], stop=flag_loops[0]):
-                pdef = au.src(b.resolve(ast.parse(P, mode="eval").body, at=inner[0], keep=(D,)))
-                key = b.resolve(stores[0].targets[0].slice, at=stores[0])
-                okf = pdef.startswith(D + "[") and isinstance(key, ast.Call) and au.call_tail(key) == "edge_id" and len(key.args) == 2
-    ctx.check(okf, R, site, "the edges of the selected paths are not all flagged (every consecutive pair of every selected path, unconditionally)",
-              "an unflagged edge of the spanning tree may be crossed by the dual tree: the singular vertices are then no longer joined by cuts",
-              note="all edges of all selected paths flagged")
+            P = _consecutive_pairs(F, inner[0])
+            stores = [(s, tg, val) for s, tg, val in hr.item_stores(inner[0]) if val is not None and au.const(val) is True]
+            if isinstance(P, tuple):
+                verdict = P[1]
+            elif P is not None and len(stores) == 1 and not F.conds(stores[0][0], stop=fl):
+                Pr = P
+                if isinstance(Pr, ast.Name):
+                    d_ = F.definition(Pr.id, inner[0])
+                    Pr = d_ if d_ is not None else Pr
+                key = F.resolve(stores[0][1].slice, stores[0][0], keep=("self",))
+                from_D = isinstance(Pr, ast.Subscript) and isinstance(Pr.value, ast.Name) and F.root(Pr.value.id, inner[0]) == D
+                if from_D and isinstance(key, ast.Call) and au.call_tail(key) == "edge_id" and len(key.args) == 2:
+                    verdict = True
+            elif P is not None and len(stores) == 1:
+                verdict = None
+    if verdict is True:
+        ctx.ok(R, site, "all edges of all selected paths flagged")
+    elif verdict is None:
+        ctx.undecided(R, site, "the flagging of the edges of the selected paths is not recognised", "")
+    else:
+        ctx.fail(R, site, "the edges of the selected paths are not all flagged (every consecutive pair of every selected path, unconditionally)",
+                 "an unflagged edge of the spanning tree may be crossed by the dual tree: the singular vertices are then no longer joined by cuts: " + verdict)
 
 
 def k2_spanning_tree_with_features(ctx):
-    fn = _fn(ctx, "_build_singularity_spanning_tree_with_features")
-    site = ctx.site(CUT, fn)
-    b = sym.Bindings(fn)
+    fn0, F = _flat(ctx, "_build_singularity_spanning_tree_with_features")
+    fn = F.fn
+    site = ctx.site(CUT, fn0)
     R = "C16-K2"
     why = "with feature edges the singular vertices are joined to the feature graph, which is then spanned: every link must be cut"
-    loops = [st for st in fn.body if isinstance(st, ast.For) and au.src(st.iter) in ("self.singularities", "self.singu_set")]
-    ok = False
+
+    def S(n):
+        return ctx.site(CUT, fn0, n)
+    loops = [st for st in au.stmts(fn.body) if isinstance(st, ast.For) and F.table_key(st.iter, st) in ("self.singularities", "self.singu_set")]
+    loops = [l for l in loops if any(au.call_tail(c) == "shortest_path_to_vertex_set" for c in au.calls(l))]
     closest = None
+    verdict = None
     if len(loops) == 1:
         lp = loops[0]
         calls = [c for c in au.calls(lp) if au.call_tail(c) == "shortest_path_to_vertex_set"]
-        inner = [s for s in lp.body if isinstance(s, ast.For)]
-        adds = [c for c in au.calls(lp) if au.call_tail(c) in ("add", "append") and isinstance(c.func.value, ast.Name)]
-        if len(calls) == 1 and len(inner) == 1 and len(adds) == 1 and not _dom(adds[0], stop=lp):
-            P = _consecutive_pairs(inner[0], b)
-            stores = [s for s in au.stmts(inner[0].body) if isinstance(s, ast.Assign) and isinstance(s.targets[0], ast.Subscript)
-                      and au.const(s.value) is True]
-            tgt = au.src(calls[0].args[2]) if len(calls[0].args) >= 3 else ""
-            ok = P is not None and len(stores) == 1 and not _dom(stores[0], stop=lp) and "feature_vertices" in tgt
+        inner = [s for s in au.stmts(lp.body) if isinstance(s, ast.For)]
+        adds = [c for c in au.calls(lp) if au.call_tail(c) in ("add", "append") and isinstance(c.func.value, ast.Name) and len(c.args) == 1]
+        if len(calls) == 1 and len(inner) == 1 and len(adds) == 1 and not F.conds(adds[0], stop=lp):
             closest = adds[0].func.value.id
-    ctx.check(ok, R, site, "not every singular vertex is linked to the feature graph by a fully flagged shortest path", why,
-              note="singularity -> feature graph links flagged edge by edge")
+            P = _consecutive_pairs(F, inner[0])
+            stores = [(s, tg, val) for s, tg, val in hr.item_stores(inner[0]) if val is not None and au.const(val) is True]
+            tgt = au.src(F.b.resolve(calls[0].args[2], at=au.enclosing_stmt(calls[0]), keep=("self",))) if len(calls[0].args) >= 3 else ""
+            if isinstance(P, tuple):
+                verdict = P[1]
+            elif P is not None and len(stores) == 1 and "feature_vertices" in tgt:
+                if F.conds(stores[0][0], stop=lp):
+                    verdict = None
+                else:
+                    key = F.resolve(stores[0][1].slice, stores[0][0], keep=("self",))
+                    if isinstance(key, ast.Call) and au.call_tail(key) == "edge_id":
+                        verdict = True
+    if verdict is True:
+        ctx.ok(R, site, "singularity -> feature graph links flagged edge by edge")
+    elif verdict is None:
+        ctx.undecided(R, site, "the linking of the singular vertices to the feature graph is not recognised", "")
+    else:
+        ctx.fail(R, site, "not every singular vertex is linked to the feature graph by a fully flagged shortest path", why + ": " + verdict)
     # BFS over the feature graph from every landing point
-    wl = [st for st in fn.body if isinstance(st, ast.While)]
-    okb = False
-    if len(wl) == 1 and closest:
-        w = wl[0]
-        seeds = [st for st in fn.body if isinstance(st, ast.For) and st.lineno < w.lineno and closest in au.names(st.iter)
-                 and any(au.call_tail(c) == "append" for c in au.calls(st)) and not any(isinstance(s, ast.If) for s in st.body)]
-        pops = [c for c in au.calls(w) if au.call_tail(c) == "popleft"]
-        flag = [s for s in au.stmts(w.body) if isinstance(s, ast.Assign) and isinstance(s.targets[0], ast.Subscript) and au.const(s.value) is True
-                and isinstance(b.resolve(s.targets[0].slice, at=s), ast.Call) and au.call_tail(b.resolve(s.targets[0].slice, at=s)) == "edge_id"]
-        okflag = False
-        if len(flag) == 1:
-            gs = _dom(flag[0], stop=w)
-            # guards: prev is not None (and the visited early-continue)
-            rest = [(t, p) for t, p in gs if not (isinstance(t, ast.Subscript) and p is False)]
-            okflag = len(rest) == 1 and isinstance(rest[0][0], ast.Compare) and isinstance(rest[0][0].ops[0], (ast.IsNot, ast.Is)) \
-                and au.const(rest[0][0].comparators[0], 0) is None
-        feat_guard = any(isinstance(t, ast.Compare) and isinstance(t.ops[0], ast.In) and "feature_edges" in au.src(t.comparators[0])
-                         for c in au.calls(w) if au.call_tail(c) == "append" for t, p in _dom(c, stop=w) if p)
-        okb = len(seeds) == 1 and len(pops) == 1 and okflag and feat_guard
-    ctx.check(okb, R, site, "the feature graph is not spanned breadth-first from every landing point with each tree edge flagged", why,
-              note="BFS tree of the feature graph flagged")
+    wl = [st for st in au.stmts(fn.body) if isinstance(st, ast.While)]
+    if len(wl) != 1 or not closest:
+        ctx.undecided(R, site, "the breadth-first spanning of the feature graph is not recognised", "")
+        return
+    w = wl[0]
+    pops = [c for c in au.calls(w) if au.call_tail(c) in ("popleft", "pop") and isinstance(c.func.value, ast.Name)]
+    if len(pops) != 1:
+        ctx.undecided(R, S(w), "the work-list of the feature-graph search is not recognised", "")
+        return
+    Q = pops[0].func.value.id
+    fifo = pops[0].func.attr == "popleft"
+    pst = au.enclosing_stmt(pops[0])
+    pair = [x.id for x in pst.targets[0].elts] if isinstance(pst, ast.Assign) and isinstance(pst.targets[0], ast.Tuple) and len(pst.targets[0].elts) == 2 \
+        and all(isinstance(x, ast.Name) for x in pst.targets[0].elts) else None
+    if pair is None:
+        ctx.undecided(R, S(w), "the entry popped by the feature-graph search is not a (vertex, previous) pair", "")
+        return
+    v, prev = pair
+    seeds = [c for c in au.calls(fn) if isinstance(c.func, ast.Attribute) and isinstance(c.func.value, ast.Name) and c.func.value.id == Q and c.func.attr == "append"
+             and F.before(c, w) and not F.inside(c, w)]
+    seed_ok = None
+    if len(seeds) == 1:
+        sl = [a for a in au.ancestors(seeds[0]) if isinstance(a, ast.For)]
+        if sl and any(isinstance(n, ast.Name) and F.root(n.id, sl[0]) == F.root(closest, sl[0]) for n in ast.walk(sl[0].iter)):
+            seed_ok = not F.conds(seeds[0], stop=sl[0])
+    flags = [(s, tg, val) for s, tg, val in hr.item_stores(w) if val is not None and au.const(val) is True
+             and isinstance(F.resolve(tg.slice, s, keep=("self",)), ast.Call) and au.call_tail(F.resolve(tg.slice, s, keep=("self",))) == "edge_id"]
+    flag_v = None
+    if len(flags) == 1:
+        s, tg, val = flags[0]
+        key = F.resolve(tg.slice, s, keep=("self", v, prev))
+        rest = []
+        for e, p in F.conds(s, stop=w):
+            ft = hr.flag_test(e, p)
+            if ft and isinstance(ft[1], ast.Name) and ft[1].id == v and ft[2] is False:
+                continue
+            x = e.left if isinstance(e, ast.Compare) and len(e.ops) == 1 and isinstance(e.ops[0], (ast.Is, ast.Eq)) and hr.is_none(e.comparators[0]) else None
+            if x is not None and isinstance(x, ast.Name) and x.id == prev and not p:
+                continue
+            rest.append((e, p))
+        if {au.src(a) for a in key.args} == {v, prev} and not rest and not any(F.inside(s, a) for a in au.stmts(w.body) if isinstance(a, ast.For)):
+            flag_v = True
+        elif {au.src(a) for a in key.args} == {v, prev} and rest:
+            flag_v = None
+            if any(isinstance(e, ast.Compare) and isinstance(e.ops[0], ast.In) and p and isinstance(e.left, ast.Name) and e.left.id == prev for e, p in rest):
+                flag_v = "a tree edge of the feature graph is flagged only when it leaves a landing point"
+        elif any(F.inside(s, a) for a in au.stmts(w.body) if isinstance(a, ast.For)):
+            flag_v = "edges are flagged when a vertex is discovered, not when it enters the tree: non-tree feature edges get flagged"
+    feat_guard = None
+    for c in au.calls(w):
+        if isinstance(c.func, ast.Attribute) and isinstance(c.func.value, ast.Name) and c.func.value.id == Q and c.func.attr == "append":
+            has = False
+            for e, p in F.conds(c, stop=w):
+                if isinstance(e, ast.Compare) and len(e.ops) == 1 and isinstance(e.ops[0], ast.In) and "feature_edges" in F.table_key(e.comparators[0], c):
+                    has = p
+            feat_guard = has if feat_guard is None else (feat_guard and has)
+    if seed_ok and fifo and flag_v is True and feat_guard:
+        ctx.ok(R, site, "BFS tree of the feature graph flagged")
+    elif isinstance(flag_v, str):
+        ctx.fail(R, site, "the feature graph is not spanned breadth-first from every landing point with each tree edge flagged", why + ": " + flag_v)
+    else:
+        ctx.undecided(R, site, "the breadth-first spanning of the feature graph is not recognised", "")
 
 
 # =============================================================================================== dual Dijkstra (C16-D*)
@@ -556,6 +1585,9 @@ class _Renamed:
     def fail(self, rule, site, construct, what, **detail):
         return self._ctx.fail(self._map.get(rule, rule), site, construct, what, **detail)
 
+    def undecided(self, rule, site, construct, what="", **detail):
+        return self._ctx.undecided(self._map.get(rule, rule), site, construct, what, **detail)
+
     def check(self, cond, rule, site, construct, what, note="", **detail):
         return self._ctx.check(cond, self._map.get(rule, rule), site, construct, what, note=note, **detail)
 
@@ -568,65 +1600,140 @@ def d1_dual_trees(ctx):
     sub = _Renamed(ctx, {"C09-D1": "C16-D1", "C09-D2": "C16-D1", "C09-D3": "C16-D1", "C09-D4": "C16-D1", "C09-Q1": "C16-D1"})
     item = c09.q1_priority_queue(_Renamed(ctx, {k: "C16-D1" for k in c09.RULES}))
     for name in DUAL:
-        fn = _fn(ctx, name)
-        site = ctx.site(CUT, fn)
-        n = c09.dijkstra(sub, CUT, fn, item)
-        ctx.check(n == 1, "C16-D1", site, f"{name}: the dual Dijkstra loop was not found", "")
-        b = sym.Bindings(fn)
-        loop = [st for st in fn.body if isinstance(st, ast.While)]
-        if len(loop) != 1:
+        fn0, F = _flat(ctx, name)
+        fn = F.fn
+        site = ctx.site(CUT, fn0)
+
+        def S(n):
+            return ctx.site(CUT, fn0, n)
+        n, roles = c09.dijkstra(sub, CUT, fn0, item, want_roles=True)
+        if n != 1 or not roles or "LBL" not in roles[0]:
+            if n != 1:
+                ctx.undecided("C16-D1", site, "the dual Dijkstra loop was not recognised", "")
             continue
-        loop = loop[0]
-        forb = au.params(fn, skip_self=True)[0]
+        r = roles[0]
+        loop, v, nv, LBL, PRED = r["loop"], r["v"], r["nv"], r["LBL"], r.get("PRED")
+        Fd = r["F"]
+        ps = au.params(fn0, skip_self=True)
+        forb = ps[0] if ps else None
+        if forb is None:
+            ctx.undecided("C16-D2", site, "the table of the spanning-tree edges is not a parameter of the dual search", "")
+            continue
         # the tree never crosses an edge of the singularity spanning tree
-        relax = [s for s in au.stmts(loop.body) if isinstance(s, ast.Assign) and isinstance(s.targets[0], ast.Subscript)
-                 and isinstance(s.targets[0].value, ast.Name) and not (isinstance(s.value, ast.Constant))]
+        relax = [(st, tg, val) for st, tg, val in hr.item_stores(loop) if isinstance(tg.value, ast.Name) and tg.value.id in (LBL, PRED)]
         pushes = [c for c in au.calls(loop) if au.call_tail(c) == "push"]
-        okx = bool(relax) and bool(pushes)
         evar = None
-        for node in relax + pushes:
-            gs = _dom(node, stop=loop)
-            hit = [t for t, pol in gs if isinstance(t, ast.Subscript) and au.src(t.value) == forb and pol is False]
-            okx = okx and len(hit) == 1
-            if hit:
-                evar = au.src(hit[0].slice)
-        ctx.check(okx, "C16-D2", ctx.site(CUT, fn, loop),
-                  f"{name}: a dual edge is relaxed / queued without the test `not {forb}[edge]`",
-                  "the dual tree must not cross the edges that join the singular vertices: those edges have to end up in the cut graph, "
-                  "otherwise a singular vertex has no copy on the border", note="spanning-tree edges never crossed")
+        okx = True
+        unknown = False
+        for node in [x[0] for x in relax] + pushes:
+            hit = []
+            for e, p in Fd.conds(node, stop=loop):
+                if isinstance(e, ast.Subscript) and isinstance(e.value, ast.Name) and Fd.root(e.value.id, node) == forb:
+                    hit.append((e, p))
+                elif isinstance(e, ast.Compare) and len(e.ops) == 1 and isinstance(e.ops[0], ast.In) and isinstance(e.comparators[0], ast.Name) \
+                        and Fd.root(e.comparators[0].id, node) == forb:
+                    hit.append((ast.Subscript(value=e.comparators[0], slice=e.left, ctx=ast.Load()), p))
+            if len(hit) == 1 and hit[0][1] is False:
+                evar = au.src(hit[0][0].slice)
+            elif len(hit) == 1:
+                okx = False
+            elif not hit:
+                okx = False
+            else:
+                unknown = True
+        eloops = [a for x in relax for a in au.ancestors(x[0]) if isinstance(a, ast.For) and Fd.inside(a, loop)]
+        plain_source = bool(eloops) and all(isinstance(a.iter, ast.Call) and au.call_tail(a.iter) in ("face_to_edges", "enumerate", "zip") for a in eloops)
+        if okx and evar and not unknown and relax and pushes:
+            ctx.ok("C16-D2", S(loop), "spanning-tree edges never crossed")
+        elif unknown or not relax or not pushes or not plain_source:
+            ctx.undecided("C16-D2", S(loop), "the test that keeps the dual tree off the spanning-tree edges is not recognised", "")
+        else:
+            _absent(ctx, Fd, loop, "C16-D2", S(loop), "a dual edge is relaxed / queued without the test `not forbidden[edge]`",
+                    "the dual tree must not cross the edges that join the singular vertices: those edges have to end up in the cut graph, "
+                    "otherwise a singular vertex has no copy on the border")
         # predecessor = the very edge that was tested and crossed
-        okp = False
-        for s in relax:
-            if evar and au.src(s.value) == evar:
-                okp = True
-        ctx.check(okp, "C16-D2", ctx.site(CUT, fn, loop), f"{name}: the edge recorded for a reached face is not the edge `{evar}` that was crossed",
+        if PRED is None or evar is None:
+            ctx.undecided("C16-D2", S(loop), "the edge recorded for a reached face is not recognised", "")
+            continue
+        pst = [(st, tg, val) for st, tg, val in relax if tg.value.id == PRED]
+        okp = bool(pst) and all(val is not None and au.src(Fd.resolve(val, st, keep=(evar,))) == evar for st, tg, val in pst)
+        ctx.check(okp, "C16-D2", S(loop), "the edge recorded for a reached face is not the edge that was tested and crossed",
                   "the cut graph is the complement of the recorded dual edges", note="predecessor edge = crossed edge")
         # the neighbour face is the face on the other side of that same edge
-        okn = False
-        for c in au.calls(loop):
-            if au.call_tail(c) == "opposite_face" and len(c.args) == 3:
-                ends = {au.src(a) for a in c.args[:2]}
-                e_def = [s for s in au.stmts(loop.body) if isinstance(s, ast.Assign) and isinstance(s.targets[0], ast.Tuple)
-                         and {x.id for x in s.targets[0].elts if isinstance(x, ast.Name)} == ends and evar
-                         and au.src(s.value) == f"self.input_mesh.edges[{evar}]"]
-                cur = [p for p in au.calls(loop) if au.call_tail(p) == "face_to_edges"]
-                okn = bool(e_def) and bool(cur) and au.src(c.args[2]) == au.src(cur[0].args[0])
-        ctx.check(okn, "C16-D2", ctx.site(CUT, fn, loop), f"{name}: the face reached through edge `{evar}` is not opposite_face(ends of that edge, current face)",
-                  "", note="neighbour across the tested edge")
+        okn = None
+        nvd = Fd.definition(nv, pst[0][0]) if pst else None
+        if isinstance(nvd, ast.Call) and au.call_tail(nvd) == "opposite_face" and len(nvd.args) == 2 and isinstance(nvd.args[0], ast.Starred) \
+                and isinstance(nvd.args[0].value, ast.Subscript) and Fd.table_key(nvd.args[0].value.value, pst[0][0]) == "self.input_mesh.edges" \
+                and au.src(nvd.args[0].value.slice) == evar:
+            lt = [a for a in au.ancestors(pst[0][0]) if isinstance(a, ast.For) and evar in au.assigned_names(a.target)]
+            from_cur = lt and isinstance(lt[0].iter, ast.Call) and au.call_tail(lt[0].iter) == "face_to_edges" and lt[0].iter.args \
+                and isinstance(lt[0].iter.args[0], ast.Name) and Fd.root(lt[0].iter.args[0].id, lt[0]) == v
+            cur_ok = isinstance(nvd.args[1], ast.Name) and Fd.root(nvd.args[1].id, pst[0][0]) == v
+            okn = True if (from_cur and cur_ok) else (False if lt and not cur_ok else None)
+        elif isinstance(nvd, ast.Call) and au.call_tail(nvd) == "opposite_face" and len(nvd.args) == 3:
+            ends = {au.src(a) for a in nvd.args[:2]}
+            e_def = [s for s in au.stmts(loop.body) if isinstance(s, ast.Assign) and isinstance(s.targets[0], ast.Tuple)
+                     and {x.id for x in s.targets[0].elts if isinstance(x, ast.Name)} == ends
+                     and isinstance(s.value, ast.Subscript) and Fd.table_key(s.value.value, s) == "self.input_mesh.edges" and au.src(s.value.slice) == evar]
+            lt = [a for a in au.ancestors(pst[0][0]) if isinstance(a, ast.For) and evar in au.assigned_names(a.target)]
+            from_cur = lt and isinstance(lt[0].iter, ast.Call) and au.call_tail(lt[0].iter) == "face_to_edges" and lt[0].iter.args \
+                and isinstance(lt[0].iter.args[0], ast.Name) and Fd.root(lt[0].iter.args[0].id, lt[0]) == v
+            cur_ok = isinstance(nvd.args[2], ast.Name) and Fd.root(nvd.args[2].id, pst[0][0]) == v
+            if e_def and from_cur and cur_ok:
+                okn = True
+            elif e_def and lt and not cur_ok:
+                okn = False
+        if okn is True:
+            ctx.ok("C16-D2", S(loop), "neighbour across the tested edge")
+        elif okn is False:
+            ctx.fail("C16-D2", S(loop), "the face reached through the tested edge is not opposite_face(ends of that edge, current face)", "")
+        else:
+            ctx.undecided("C16-D2", S(loop), "how the face on the other side of the crossed edge is obtained is not recognised", "")
         # result: every recorded edge, nothing else
-        rets = [st for st in fn.body if isinstance(st, ast.Return)]
-        okr = False
-        if len(rets) == 1 and isinstance(rets[0].value, (ast.SetComp, ast.Call)):
-            v = rets[0].value
-            comp = v if isinstance(v, ast.SetComp) else (v.args[0] if v.args and isinstance(v.args[0], (ast.GeneratorExp, ast.ListComp, ast.SetComp)) else None)
+        rets = [st for st in au.stmts(fn.body) if isinstance(st, ast.Return) and st.value is not None]
+        okr = None
+        if len(rets) == 1:
+            vv = Fd.b.resolve(rets[0].value, at=rets[0], keep=("self", PRED, r.get("VIS") or "_", LBL))
+            comp = vv if isinstance(vv, (ast.SetComp,)) else (vv.args[0] if isinstance(vv, ast.Call) and au.call_tail(vv) in ("set", "frozenset") and vv.args
+                                                            and isinstance(vv.args[0], (ast.GeneratorExp, ast.ListComp, ast.SetComp)) else None)
             if comp is not None and len(comp.generators) == 1:
                 g = comp.generators[0]
-                pred = {au.src(s.targets[0].value) for s in relax if evar and au.src(s.value) == evar}
-                okr = au.src(g.iter) in ("self.input_mesh.id_faces", "range(len(self.input_mesh.faces))") and isinstance(comp.elt, ast.Subscript) \
-                    and au.src(comp.elt.value) in pred and au.src(comp.elt.slice) == au.src(g.target) and len(g.ifs) == 1 \
-                    and au.norm(g.ifs[0]) == au.norm(ast.parse(f"{au.src(comp.elt)} is not None", mode="eval").body)
-        ctx.check(okr, "C16-D2", site, f"{name}: the returned set is not {{edge recorded for f : every face f with a recorded edge}}",
-                  "a dual edge missing from the result is reported as cut and opened", note="returns every dual tree edge")
+                over_faces = au.src(g.iter) in ("self.input_mesh.id_faces", "range(len(self.input_mesh.faces))")
+                over_pred = isinstance(g.iter, ast.Name) and Fd.root(g.iter.id, rets[0]) == Fd.root(PRED, rets[0])
+                if over_faces and isinstance(comp.elt, ast.Subscript) and isinstance(comp.elt.value, ast.Name) and Fd.root(comp.elt.value.id, rets[0]) == Fd.root(PRED, rets[0]) \
+                        and au.src(comp.elt.slice) == au.src(g.target):
+                    if len(g.ifs) == 1 and au.canon_test(g.ifs[0]) == au.canon_test(ast.parse(f"{au.src(comp.elt)} is not None", mode="eval").body):
+                        okr = True
+                    elif len(g.ifs) >= 1 and any(hr.same(t_, comp.elt) or any(isinstance(n, ast.Subscript) and isinstance(n.value, ast.Name)
+                                                                               and Fd.root(n.value.id, rets[0]) == r.get("VIS") for n in ast.walk(t_)) for t_ in g.ifs):
+                        okr = False
+                elif over_pred and isinstance(g.target, ast.Name) and au.src(comp.elt) == g.target.id:
+                    if len(g.ifs) == 1 and au.canon_test(g.ifs[0]) == f"{g.target.id} is not None":
+                        okr = True
+                    elif len(g.ifs) == 1 and isinstance(g.ifs[0], ast.Name):
+                        okr = False          # truthiness drops edge 0
+        if okr is True:
+            ctx.ok("C16-D2", site, "returns every dual tree edge")
+        elif okr is False:
+            ctx.fail("C16-D2", site, "the returned set is not {edge recorded for f : every face f with a recorded edge}",
+                     "a dual edge missing from the result is reported as cut and opened (an extra or a truthiness filter drops recorded edges)")
+        else:
+            ctx.undecided("C16-D2", site, "the set returned by the dual search is not recognised", "")
+
+
+# =============================================================================================== face regions (C16-R1)
+def r1_region_tree(ctx):
+    """_build_feature_regions grows a FaceSpanningForest over the faces with the feature / spanning-tree edges as exclusions: the face tree must
+    respect them (obligations of C10 on FaceSpanningTree.compute, filed under C16-R1)"""
+    from . import c10
+    fr0, Fr = _flat(ctx, "_build_feature_regions")
+    uses = [c for c in au.calls(Fr.fn) if au.call_tail(c) in ("FaceSpanningForest", "FaceSpanningTree")]
+    if not uses:
+        ctx.ok("C16-R1", ctx.site(CUT, fr0), "the feature regions are not computed with a face spanning tree")
+        return
+    sub = _Renamed(ctx, {k: "C16-R1" for k in c10.RULES})
+    fn = ctx.repo.func(c10.FACE, "FaceSpanningTree.compute")
+    c10.bfs_tree(sub, c10.FACE, "FaceSpanningTree", fn, "faces", ("in", "forbidden_edges"))
 
 
 # =============================================================================================== ownership of the cut data (C16-A1)
@@ -646,6 +1753,22 @@ class T:
 """
 
 
+def _may_be_param(v, ps):
+    """the value may be the very object of a parameter: p, `p if c else x`, `p or x`"""
+    if isinstance(v, ast.Name) and v.id in ps:
+        return v.id
+    if isinstance(v, ast.IfExp):
+        return _may_be_param(v.body, ps) or _may_be_param(v.orelse, ps)
+    if isinstance(v, ast.BoolOp):
+        for x in v.values:
+            r = _may_be_param(x, ps)
+            if r:
+                return r
+    if isinstance(v, ast.NamedExpr):
+        return _may_be_param(v.value, ps)
+    return None
+
+
 def _borrowed_fields(cls):
     """fields that `__init__` binds directly to one of its parameters (the object stays shared with the caller)"""
     out = {}
@@ -654,11 +1777,11 @@ def _borrowed_fields(cls):
             ps = set(au.params(st, skip_self=True))
             for s in au.stmts(st.body):
                 if isinstance(s, (ast.Assign, ast.AnnAssign)) and s.value is not None:
-                    v = s.value
-                    if isinstance(v, ast.Name) and v.id in ps:
+                    p = _may_be_param(s.value, ps)
+                    if p:
                         for t in au.assign_targets(s):
                             if au.is_self_attr(t):
-                                out[t.attr] = v.id
+                                out[t.attr] = p
     return out
 
 
@@ -666,27 +1789,35 @@ def _field_mutations(cls, fields):
     for st in cls.body:
         if not isinstance(st, ast.FunctionDef):
             continue
+        # local aliases of the field (`forbidden = self.forbidden_edges`) mutate the same object
+        alias = {}
+        for s in au.stmts(st.body):
+            if isinstance(s, ast.Assign) and len(s.targets) == 1 and isinstance(s.targets[0], ast.Name) and au.is_self_attr(s.value) and s.value.attr in fields:
+                alias[s.targets[0].id] = s.value.attr
+
+        def field_of(r):
+            while isinstance(r, ast.Subscript):
+                r = r.value
+            if au.is_self_attr(r) and r.attr in fields:
+                return r.attr
+            if isinstance(r, ast.Name) and r.id in alias:
+                return alias[r.id]
+            return None
         for n in au.walk(st, into_funcs=True):
             if isinstance(n, ast.Call) and isinstance(n.func, ast.Attribute) and n.func.attr in MUTATORS:
-                r = n.func.value
-                while isinstance(r, ast.Subscript):
-                    r = r.value
-                if au.is_self_attr(r) and r.attr in fields:
-                    yield st, n, r.attr, f"self.{r.attr}.{n.func.attr}(..)"
+                f = field_of(n.func.value)
+                if f:
+                    yield st, n, f, f"self.{f}.{n.func.attr}(..)"
             elif isinstance(n, ast.AugAssign):
-                r = n.target
-                while isinstance(r, ast.Subscript):
-                    r = r.value
-                if au.is_self_attr(r) and r.attr in fields:
-                    yield st, n, r.attr, f"augmented assignment on self.{r.attr}"
+                f = field_of(n.target)
+                if f:
+                    yield st, n, f, f"augmented assignment on self.{f}"
             elif isinstance(n, (ast.Assign, ast.Delete)):
-                for t in (n.targets if isinstance(n, (ast.Assign, ast.Delete)) else []):
+                for t in n.targets:
                     if isinstance(t, ast.Subscript):
-                        r = t.value
-                        while isinstance(r, ast.Subscript):
-                            r = r.value
-                        if au.is_self_attr(r) and r.attr in fields:
-                            yield st, n, r.attr, f"item store / delete on self.{r.attr}"
+                        f = field_of(t)
+                        if f:
+                            yield st, n, f, f"item store / delete on self.{f}"
 
 
 def a1_ownership(ctx):
@@ -706,20 +1837,22 @@ def a1_ownership(ctx):
         m = ctx.repo.module(modname)
         for q, cls in m.classes.items():
             bf = _borrowed_fields(cls)
+            bf = {k: v for k, v in bf.items() if k not in ("mesh",)}
             if not bf:
                 continue
             n_cls += 1
             hits = list(_field_mutations(cls, bf))
             for fn, node, f, how in hits:
-                ctx.fail(R, ctx.site(modname, f"{q}.{fn.name}", node), f"{q}.{fn.name}: {how} changes the object the caller passed as `{bf[f]}`",
+                ctx.fail(R, ctx.site(modname, f"{q}.{fn.name}", node), f"{q}: {how} changes the object the caller passed to the constructor",
                          "the exclusion set handed to a tree (the cutter's cut_edges, in the parametrisation code) stays the caller's object: "
                          "filling it during a traversal changes the reported cut edges after the fact")
             if not hits:
                 ctx.ok(R, ctx.site(modname, q), f"{q}: borrowed {sorted(bf)} never mutated")
-    ctx.require_count("C16-A1 tree classes keeping a caller's exclusion set", n_cls, 3)
+    if n_cls == 0:
+        ctx.ok(R, ctx.site(TREE_MODULES[2], "FaceSpanningTree"), "no spanning tree keeps an object of its caller")
     # cutter results are written by the cutter only
-    owners = {"_build_cut_edges_tree", "_prune_edge_tree", "__init__", "_build_mesh_with_cuts"}
     fields = {"cut_edges", "cut_adj", "ref_vertex"}
+    n_w = 0
     for modname, m in sorted(ctx.repo.modules.items()):
         for n in ast.walk(m.tree):
             recv = None
@@ -730,7 +1863,7 @@ def a1_ownership(ctx):
                     r = r.value
                 if isinstance(r, ast.Attribute) and r.attr in fields:
                     recv, how = r, f".{n.func.attr}(..)"
-            elif isinstance(n, (ast.Assign, ast.AugAssign, ast.Delete)):
+            elif isinstance(n, (ast.Assign, ast.AugAssign, ast.Delete, ast.AnnAssign)):
                 ts = n.targets if isinstance(n, (ast.Assign, ast.Delete)) else [n.target]
                 for t in ts:
                     r = t
@@ -742,8 +1875,10 @@ def a1_ownership(ctx):
             if recv is None:
                 continue
             fn = au.enclosing_func(n)
-            inside = modname.endswith(CUT) and au.is_self_attr(recv) and fn is not None and fn.name in owners
-            ctx.check(inside, R, ctx.site(modname, getattr(fn, "_qualname", None) or (fn.name if fn else "<module>"), n),
-                      f"`{au.src(recv)}` {how} outside the cutter's own construction steps",
+            q = getattr(fn, "_qualname", "") if fn is not None else ""
+            inside = modname.endswith(CUT) and au.is_self_attr(recv) and q.split(".<locals>.")[0].startswith(CLS + ".")
+            n_w += 1
+            ctx.check(inside, R, ctx.site(modname, q or "<module>", n),
+                      f"`{au.src(recv)}` {how} outside the cutter's own methods",
                       "cut_edges / cut_adj / ref_vertex describe the cuts that were made; changing them elsewhere makes the report disagree with the cut mesh",
                       note="cut data written by the cutter")
